@@ -2,6 +2,9 @@
    C06 the NLL equals its defining formula      C07 returned derivatives are the derivatives of the returned NLL
    C08 fit result == model state                C09 (interface part) uncertainties are first-order propagated
 
+An exception of the code under contract inside one case (one model / configuration) is turned into a failed obligation of that case with the
+exception as witness (`_case`, `_try`); only exceptions without a repository frame (harness errors) end a group as a machinery error.
+
 Oracles are numpy functions written from the property statements (vt/iface/likelihood.py); the repository is only
 reached through ctx.mod(...).  None of these groups counts as a proof (kind="B").
 
@@ -12,6 +15,7 @@ Tolerances (fixed, justified):
 """
 from __future__ import annotations
 
+import contextlib
 import copy
 import json
 import math
@@ -39,6 +43,17 @@ def _veq(a, b, rtol=RTOL_VALUE, atol=ATOL_VALUE):
     return math.isfinite(a) and math.isfinite(b) and abs(a - b) <= atol + rtol * abs(b)
 
 
+def _repo_frames(ex):
+    import traceback
+
+    return [f for f in traceback.extract_tb(ex.__traceback__) if "tf_pwa" in f.filename]
+
+
+def _exc_text(ex):
+    where = [("%s:%d %s" % (os.path.relpath(f.filename, "/"), f.lineno, f.name)) for f in _repo_frames(ex)][-3:]
+    return "%s: %s @ %s" % (type(ex).__name__, str(ex)[:300], " <- ".join(reversed(where)))
+
+
 def _try(fn):
     """run code under contract; an exception on an input satisfying the precondition is reported as a violation of the
     clause being checked (the clauses are total: 'for all batch sizes / models ... returns X'), never swallowed"""
@@ -46,11 +61,26 @@ def _try(fn):
         with L.quiet():
             return fn(), None
     except Exception as ex:  # noqa: BLE001
-        import traceback
+        return None, _exc_text(ex)
 
-        tb = traceback.extract_tb(ex.__traceback__)
-        where = [("%s:%d %s" % (os.path.relpath(f.filename, "/"), f.lineno, f.name)) for f in tb if "tf_pwa" in f.filename][-3:]
-        return None, "%s: %s @ %s" % (type(ex).__name__, str(ex)[:300], " <- ".join(reversed(where)))
+
+@contextlib.contextmanager
+def _case(ctx, agg, name, clause, wit):
+    """One case (one model / one configuration) of a group.  An exception of the code under contract that escapes inside the case becomes
+    the FAILED obligation `name` with the exception text and the case's inputs as witness - never a crash of the whole group (the other
+    models still run).  Exceptions without any repository frame in their traceback are harness errors and propagate (machinery error)."""
+    try:
+        yield
+    except Exception as ex:  # noqa: BLE001
+        if not _repo_frames(ex):
+            raise
+        text = _exc_text(ex)
+        ctx.count(key=("raised", name, text[:120]), sample={"obligation": name, "raised": text})
+        agg.add(name, False, clause + " - the code under contract raised on an input satisfying the preconditions", dict(wit, raised=text))
+
+
+#: clause of an obligation that failed because the code under contract raised outside an individually guarded call
+_RAISE_CLAUSE = "building the likelihood (ConfigLoader, get_fcn, set_params) and evaluating it succeeds for this model"
 
 
 class Agg:
@@ -65,6 +95,7 @@ class Agg:
         if not ok and it["ok"]:
             it["ok"] = False
             it["witness"] = witness
+            it["clause"] = clause
 
     def emit(self, ctx):
         for name, it in self.items.items():
@@ -81,7 +112,12 @@ WEIGHT_CASES = [
     ("unit_nobg", dict(weights=None, phsp_weights=None, n_bg=0)),
     ("mixed_bgdefault", dict(weights="mixed", phsp_weights="mixed", bg_weights=None)),
     ("mixed_bguser", dict(weights="mixed", phsp_weights="mixed", bg_weights="user")),
+    # user weights of both signs of which a few are EXACTLY 0.0 (sWeights / selection weights stored as zeros): 4 of 40 data rows, 2 of 12
+    # background rows (user background weights), 3 of 60 phase-space rows.  Rows of weight 0 contribute nothing to any sum of the formula.
+    ("zero_mixed", dict(weights="mixed", phsp_weights="mixed", bg_weights="user", zero_weights={"data": 4, "bg": 2, "phsp": 3})),
 ]
+_ZERO_CLAUSE = ("samples containing events of weight exactly 0.0 (data, background and phase space): %s == the defining formula, in which rows of "
+                "weight 0 contribute nothing (rtol 1e-9)")
 
 
 # ================================================================================================ C06
@@ -95,6 +131,9 @@ WEIGHT_CASES = [
        bound="10 likelihood models selectable by configuration x 3 weight schemes (unit / user weights of both signs with default -bg_weight "
              "background rows / user background weights; weighted phase space incl. negative weights) x 2 seeded samples (40 data, 12 bg, 60 phsp "
              "events; cached models 1 sample in quick; thorough: 4 samples, also 3 resonances) x 3 call forms (fcn({}), fcn(dict), fcn(list)); "
+             "a 4th scheme with weights EXACTLY 0.0 on 4 data, 2 background and 3 phase-space rows (1 sample per model in quick, 4 in thorough): "
+             "fcn (3 call forms), nll_grad(params)[0] and nll_grad_hessian(params)[0] each against the formula (zero_weight/*; cfit_cached with unit "
+             "efficiency); "
              "rescaling of all chain couplings by c in {0.37, 2.5} (thorough + {1e-2, 30}) for the 8 not-extended models; rtol 1e-9",
        assumes=["densities are above the clip_log threshold 1e-6 (asserted per sample); the oracle uses the model's own per-event densities "
                 "amp(data), i.e. it is independent of the NLL code but not of the amplitude code"])
@@ -105,59 +144,77 @@ def nll_formula(ctx):
     quick = ctx.tier == "quick"
     n_total = n_applicable = 0
     for model, (_, fam) in L.CATALOGUE.items():
-        cfit = fam.startswith("cfit")
-        seeds = ((3,) if model in L.CACHED else (3, 4)) if quick else (3, 4, 5, 6)
-        for n_res in ((2,) if quick else (2, 3)):
-            config = L.build(ctx, L.tiny_dict(model, n_res=n_res), seed=n_res)
-            for wname, kw in WEIGHT_CASES:
-                if cfit and wname == "mixed_bguser":
-                    continue  # cfit does not take a background sample
-                for seed in seeds:
-                    data, phsp, bg = L.make_samples(config, seed * 17 + n_res, cfit=cfit, **kw)
-                    params = {k: float(v) for k, v in config.get_params().items()}
-                    expect, fmin = L.oracle_nll(config, fam, data, phsp, bg)
-                    with L.quiet():
-                        fcn = config.get_fcn(_all_data(data, phsp, bg, cfit), batch=65000)
-                        keep.append(fcn)
-                        names = list(config.vm.trainable_vars)  # after get_fcn: an extended model frees the fixed total
-                        v_empty = float(fcn({}))
-                        v_dict = float(fcn({k: params[k] for k in names}))
-                        v_list = float(fcn([params[k] for k in names]))
-                        v_grad = float(fcn.nll_grad({})[0])
-                    wit = {"model": model, "n_res": n_res, "weights": wname, "sample_seed": seed * 17 + n_res, "params": params,
-                           "fcn({})": v_empty, "fcn(dict)": v_dict, "fcn(list)": v_list, "nll_grad({})[0]": v_grad, "formula": expect,
-                           "min_density": fmin}
-                    ctx.count(key=(model, n_res, wname, seed), sample={k: wit[k] for k in ("model", "weights", "fcn({})", "formula")})
-                    n_total += 1
-                    if not fmin > 2e-6:
-                        continue  # the formula is only claimed above the clip_log threshold; sample not applicable
-                    n_applicable += 1
-                    agg.add("value/" + model, _veq(v_empty, expect) and _veq(v_dict, expect) and _veq(v_list, expect),
-                            "get_fcn(...)(params) == -alpha[sum w ln f - (sum w) ln(sum v f/sum v)] (bg rows weight -w_bkg, alpha = sum w/sum w^2; "
-                            "documented lambda / signal-background mixture terms for extended / cfit models), all call forms", wit)
-                    agg.add("grad_value/" + model, _veq(v_grad, v_empty),
-                            "fcn.nll_grad(params)[0] == fcn(params) (value returned alongside the gradient is the stand-alone NLL)", wit)
-                    # common rescaling of all amplitudes (not extended), on the FCN just built
-                    if fam in ("ext", "cfit_ext") or wname != "mixed_bgdefault" or seed != seeds[0]:
-                        continue
-                    f0 = L.density(config, data)
-                    for c in ((0.37, 2.5) if quick else (0.37, 2.5, 1e-2, 30.0)):
+        with _case(ctx, agg, "value/" + model, _RAISE_CLAUSE, {"model": model}):
+            cfit = fam.startswith("cfit")
+            seeds = ((3,) if model in L.CACHED else (3, 4)) if quick else (3, 4, 5, 6)
+            for n_res in ((2,) if quick else (2, 3)):
+                config = L.build(ctx, L.tiny_dict(model, n_res=n_res), seed=n_res)
+                for wname, kw in WEIGHT_CASES:
+                    if cfit and wname == "mixed_bguser":
+                        continue  # cfit does not take a background sample
+                    zero = "zero_weights" in kw
+                    for seed in (seeds[:1] if zero and quick else seeds):
+                        data, phsp, bg = L.make_samples(config, seed * 17 + n_res, cfit=cfit, **kw)
+                        if zero and model == "cfit_cached":
+                            # unit efficiency: keeps the zero-weight obligations independent of the efficiency defect of grad_value/cfit_cached
+                            data["eff_value"] = np.ones(len(data["eff_value"]))
+                            phsp["eff_value"] = np.ones(len(phsp["eff_value"]))
+                        params = {k: float(v) for k, v in config.get_params().items()}
+                        expect, fmin = L.oracle_nll(config, fam, data, phsp, bg)
                         with L.quiet():
-                            config.set_params(_scaled_totals(config, params, c))
-                            f1 = L.density(config, data)
-                            v1 = float(fcn({}))
-                            vg1 = float(fcn.nll_grad({})[0])
-                            config.set_params(params)
-                        ctx.count(key=("scale", model, n_res, c), sample={"model": model, "c": c, "nll": v_empty, "nll_scaled": v1})
-                        wit2 = {"model": model, "n_res": n_res, "c": c, "params": params, "sample_seed": seed * 17 + n_res, "nll": v_empty,
-                                "nll_scaled": v1, "nll_grad0": v_grad, "nll_grad0_scaled": vg1}
-                        agg.add("precondition/scaling_scales_density", L.close(f1, c * c * f0, 1e-9, 0.0),
-                                "harness: scaling every chain total by c multiplies every density by c^2", wit2)
-                        if not float(np.min(f1)) > 2e-6:
-                            continue  # scaled densities reach the clip_log continuation: invariance not claimed
-                        # the two evaluations differ by (sum w)(ln c^2 - ln c^2): |ln c^2| sum|w| <= 7*60 cancels to rounding, atol 1e-9
-                        agg.add("rescale/" + model, _veq(v1, v_empty, atol=1e-9) and _veq(vg1, v_grad, atol=1e-9),
-                                "not extended: NLL is invariant under a common rescaling of all amplitudes (fcn and nll_grad value)", wit2)
+                            fcn = config.get_fcn(_all_data(data, phsp, bg, cfit), batch=65000)
+                            keep.append(fcn)
+                            names = list(config.vm.trainable_vars)  # after get_fcn: an extended model frees the fixed total
+                            v_empty = float(fcn({}))
+                            v_dict = float(fcn({k: params[k] for k in names}))
+                            v_list = float(fcn([params[k] for k in names]))
+                            v_grad = float(fcn.nll_grad({})[0])
+                        wit = {"model": model, "n_res": n_res, "weights": wname, "sample_seed": seed * 17 + n_res, "params": params,
+                               "fcn({})": v_empty, "fcn(dict)": v_dict, "fcn(list)": v_list, "nll_grad({})[0]": v_grad, "formula": expect,
+                               "min_density": fmin}
+                        ctx.count(key=(model, n_res, wname, seed), sample={k: wit[k] for k in ("model", "weights", "fcn({})", "formula")})
+                        n_total += 1
+                        if not fmin > 2e-6:
+                            continue  # the formula is only claimed above the clip_log threshold; sample not applicable
+                        n_applicable += 1
+                        if zero:
+                            # own obligations (not folded into value/ and grad_value/): every observation point against the formula itself
+                            wit["zero_weight_rows"] = {k: np.flatnonzero(L.npw(s, 0) == 0.0).tolist() for k, s in (("data", data), ("bg", bg), ("phsp", phsp))
+                                                       if s is not None and "weight" in s}
+                            agg.add("zero_weight/value/" + model, _veq(v_empty, expect) and _veq(v_dict, expect) and _veq(v_list, expect),
+                                    _ZERO_CLAUSE % "fcn({}), fcn(dict), fcn(list)", wit)
+                            agg.add("zero_weight/grad_value/" + model, _veq(v_grad, expect), _ZERO_CLAUSE % "fcn.nll_grad(params)[0]", wit)
+                            if seed == seeds[0]:  # one Hessian per model and n_res (n^2 second derivatives)
+                                res, exc = _try(lambda: float(fcn.nll_grad_hessian({})[0]))
+                                agg.add("zero_weight/hessian_value/" + model, exc is None and _veq(res, expect), _ZERO_CLAUSE % "fcn.nll_grad_hessian(params)[0]",
+                                        dict(wit, **{"nll_grad_hessian({})[0]": res, "raised": exc}))
+                            continue
+                        agg.add("value/" + model, _veq(v_empty, expect) and _veq(v_dict, expect) and _veq(v_list, expect),
+                                "get_fcn(...)(params) == -alpha[sum w ln f - (sum w) ln(sum v f/sum v)] (bg rows weight -w_bkg, alpha = sum w/sum w^2; "
+                                "documented lambda / signal-background mixture terms for extended / cfit models), all call forms", wit)
+                        agg.add("grad_value/" + model, _veq(v_grad, v_empty),
+                                "fcn.nll_grad(params)[0] == fcn(params) (value returned alongside the gradient is the stand-alone NLL)", wit)
+                        # common rescaling of all amplitudes (not extended), on the FCN just built
+                        if fam in ("ext", "cfit_ext") or wname != "mixed_bgdefault" or seed != seeds[0]:
+                            continue
+                        f0 = L.density(config, data)
+                        for c in ((0.37, 2.5) if quick else (0.37, 2.5, 1e-2, 30.0)):
+                            with L.quiet():
+                                config.set_params(_scaled_totals(config, params, c))
+                                f1 = L.density(config, data)
+                                v1 = float(fcn({}))
+                                vg1 = float(fcn.nll_grad({})[0])
+                                config.set_params(params)
+                            ctx.count(key=("scale", model, n_res, c), sample={"model": model, "c": c, "nll": v_empty, "nll_scaled": v1})
+                            wit2 = {"model": model, "n_res": n_res, "c": c, "params": params, "sample_seed": seed * 17 + n_res, "nll": v_empty,
+                                    "nll_scaled": v1, "nll_grad0": v_grad, "nll_grad0_scaled": vg1}
+                            agg.add("precondition/scaling_scales_density", L.close(f1, c * c * f0, 1e-9, 0.0),
+                                    "harness: scaling every chain total by c multiplies every density by c^2", wit2)
+                            if not float(np.min(f1)) > 2e-6:
+                                continue  # scaled densities reach the clip_log continuation: invariance not claimed
+                            # the two evaluations differ by (sum w)(ln c^2 - ln c^2): |ln c^2| sum|w| <= 7*60 cancels to rounding, atol 1e-9
+                            agg.add("rescale/" + model, _veq(v1, v_empty, atol=1e-9) and _veq(vg1, v_grad, atol=1e-9),
+                                    "not extended: NLL is invariant under a common rescaling of all amplitudes (fcn and nll_grad value)", wit2)
     agg.add("precondition/applicable_samples", n_applicable >= 0.9 * n_total, "harness: at least 90% of the samples have all densities above the clip threshold",
             {"samples": n_total, "applicable": n_applicable})
     agg.emit(ctx)
@@ -166,7 +223,11 @@ def nll_formula(ctx):
 @group(["C06"], "iface.nll/batch", _NLL_FUNCS + ["model.model:_batch_sum", "model.model:sum_gradient", "data:data_split"], env="tf", kind="B",
        bound="10 models x batch in {1, 3, n-1, n, n+1, 65000} (n = 29 blended data rows (22 for cfit), 37 phase-space rows; quick: batch 1 only for "
              "default, cfit, cfit_extended, simple, cached_amp and no batch 1, 3 for cached_int (tracing cost); thorough all + 2, 7, n_phsp-1, n_phsp, "
-             "n_phsp+1) x user weights of both signs; value and nll_grad value/gradient compared with batch 65000, rtol 1e-9",
+             "n_phsp+1) x user weights of both signs; value and nll_grad value/gradient compared with batch 65000, rtol 1e-9; a second sample (12 "
+             "data + 6 bg rows with user weights, 18 phase-space rows) with weights exactly 0.0 on data rows 3-5, 10, bg rows 0, 5, phase-space rows "
+             "6-8, 13 (whole batches of zero weight at batch 3, 2, 1) at batch {n+1, 3} (quick: cached models 3 only, cached_int thorough only; "
+             "thorough 65000, 3, n+1, 1, 2, 6, 7, n-1; cfit_extended without ragged last batches): fcn and nll_grad value against the FORMULA, "
+             "gradient against the first batch size",
        assumes=["gradient entries are compared with atol 1e-9*max|g| (entries that vanish by symmetry)"])
 def nll_batch(ctx):
     np.random.seed(ctx.seed + 7)
@@ -175,44 +236,92 @@ def nll_batch(ctx):
     quick = ctx.tier == "quick"
     n_data, n_bg, n_phsp = 22, 7, 37
     for model, (_, fam) in L.CATALOGUE.items():
-        cfit = fam.startswith("cfit")
-        config = L.build(ctx, L.tiny_dict(model), seed=7)
-        data, phsp, bg = L.make_samples(config, 77, n_data=n_data, n_bg=n_bg, n_phsp=n_phsp, cfit=cfit)
-        n = n_data if cfit else n_data + n_bg
-        batches = [65000, 1, 3, n - 1, n, n + 1]
-        if quick:
-            if model not in ("default", "cfit", "cfit_extended", "simple", "cached_amp"):
-                batches.remove(1)
-            if model == "cached_int":
-                batches.remove(3)
-        else:
-            batches += [2, 7, n_phsp - 1, n_phsp, n_phsp + 1]
-        ref = None
-        for b in batches:
-            def run(b=b):
-                fcn = config.get_fcn(_all_data(data, phsp, bg, cfit), batch=b)
-                keep.append(fcn)
-                v = float(fcn({}))
-                vg, g = fcn.nll_grad({})
-                return v, vg, np.asarray(g, dtype=float)
+        with _case(ctx, agg, "batch/" + model, _RAISE_CLAUSE, {"model": model, "sample_seeds": [77, 78]}):
+            cfit = fam.startswith("cfit")
+            config = L.build(ctx, L.tiny_dict(model), seed=7)
+            data, phsp, bg = L.make_samples(config, 77, n_data=n_data, n_bg=n_bg, n_phsp=n_phsp, cfit=cfit)
+            n = n_data if cfit else n_data + n_bg
+            batches = [65000, 1, 3, n - 1, n, n + 1]
+            if quick:
+                if model not in ("default", "cfit", "cfit_extended", "simple", "cached_amp"):
+                    batches.remove(1)
+                if model == "cached_int":
+                    batches.remove(3)
+            else:
+                batches += [2, 7, n_phsp - 1, n_phsp, n_phsp + 1]
+            ref = None
+            for b in batches:
+                def run(b=b):
+                    fcn = config.get_fcn(_all_data(data, phsp, bg, cfit), batch=b)
+                    keep.append(fcn)
+                    v = float(fcn({}))
+                    vg, g = fcn.nll_grad({})
+                    return v, vg, np.asarray(g, dtype=float)
 
-            res, exc = _try(run)
-            ctx.count(key=(model, b), sample={"model": model, "batch": b, "nll": res[0] if res else exc})
-            if exc is not None:
+                res, exc = _try(run)
+                ctx.count(key=(model, b), sample={"model": model, "batch": b, "nll": res[0] if res else exc})
+                if exc is not None:
+                    agg.add("batch/" + model, False, "NLL value, nll_grad value and gradient are returned and are the same for every batch size (vs batch 65000)",
+                            {"model": model, "batch": b, "n_rows": n, "n_phsp": n_phsp, "sample_seed": 77, "raised": exc, "fcn@65000": ref[0] if ref else None})
+                    if ref is None:
+                        break  # the reference batch size 65000 itself raised: nothing to compare the other batch sizes with
+                    continue
+                v, vg, g = res
                 if ref is None:
-                    raise RuntimeError("reference batch failed: " + exc)
-                agg.add("batch/" + model, False, "NLL value, nll_grad value and gradient are the same for every batch size (vs batch 65000)",
-                        {"model": model, "batch": b, "n_rows": n, "n_phsp": n_phsp, "sample_seed": 77, "raised": exc, "fcn@65000": ref[0]})
-                continue
-            v, vg, g = res
-            if ref is None:
-                ref = (v, float(vg), g)
-                continue
-            gtol = 1e-9 * float(np.max(np.abs(ref[2]))) + 1e-12
-            ok = _veq(v, ref[0]) and _veq(vg, ref[1]) and L.close(g, ref[2], 1e-9, gtol)
-            agg.add("batch/" + model, ok, "NLL value, nll_grad value and gradient are the same for every batch size (vs batch 65000)",
-                    {"model": model, "batch": b, "n_rows": n, "n_phsp": n_phsp, "sample_seed": 77, "fcn": v, "fcn@65000": ref[0],
-                     "nll_grad[0]": float(vg), "nll_grad[0]@65000": ref[1], "max|dg|": float(np.max(np.abs(g - ref[2])))})
+                    ref = (v, float(vg), g)
+                    continue
+                gtol = 1e-9 * float(np.max(np.abs(ref[2]))) + 1e-12
+                ok = _veq(v, ref[0]) and _veq(vg, ref[1]) and L.close(g, ref[2], 1e-9, gtol)
+                agg.add("batch/" + model, ok, "NLL value, nll_grad value and gradient are the same for every batch size (vs batch 65000)",
+                        {"model": model, "batch": b, "n_rows": n, "n_phsp": n_phsp, "sample_seed": 77, "fcn": v, "fcn@65000": ref[0],
+                         "nll_grad[0]": float(vg), "nll_grad[0]@65000": ref[1], "max|dg|": float(np.max(np.abs(g - ref[2])))})
+            # ---- rows of weight exactly 0.0, placed so that with batch 3 (2, 1) a whole data batch (rows 3-5) and a whole phase-space batch
+            # (rows 6-8) consist of zero-weight rows only.  Value and nll_grad value are compared with the FORMULA at every batch size (a batch
+            # comparison alone cannot see a contribution of zero-weight rows that is the same for every batch size), the gradient with the first
+            # batch size run (a single batch).
+            # Sample sizes 12 (+6 bg) / 18 are multiples of 1, 2, 3, 6: cfit_extended only gets batch sizes without a ragged last batch (its
+            # failure on ragged batches is the known finding batch/cfit_extended and is not re-reported here).  Small samples: the cost is
+            # one eager amplitude evaluation per batch.
+            zn_data, zn_bg, zn_phsp = 12, 6, 18
+            zrows = {"data": [3, 4, 5, 10], "bg": [0, 5], "phsp": [6, 7, 8, 13]}
+            data, phsp, bg = L.make_samples(config, 78, n_data=zn_data, n_bg=zn_bg, n_phsp=zn_phsp, cfit=cfit, bg_weights="user", zero_weights=zrows)
+            if model == "cfit_cached":  # unit efficiency, see iface.nll/formula
+                data["eff_value"] = np.ones(zn_data)
+                phsp["eff_value"] = np.ones(zn_phsp)
+            zn = zn_data if cfit else zn_data + zn_bg
+            expect, fmin = L.oracle_nll(config, fam, data, phsp, bg)
+            if quick:  # every new FCN of a cached model costs 3-13 s of tf.function tracing: batch 3 only; cached_int (13 s) in thorough only
+                zbatches = [] if model == "cached_int" else [3] if model in L.CACHED else [zn + 1, 3]
+            else:
+                zbatches = [65000, 3, zn + 1, 1, 2, 6] + ([] if model == "cfit_extended" else [7, zn - 1])
+            agg.add("precondition/zero_weight_sample_above_clip", fmin > 2e-6, "harness: densities of the zero-weight batch sample are above the clip threshold",
+                    {"model": model, "min_density": fmin, "sample_seed": 78})
+            clause = "sample with rows of weight exactly 0.0 (a whole batch of them at batch 3, 2, 1): %s at every batch size (rtol 1e-9)"
+            c_fcn = clause % "fcn(params) == the defining formula"
+            c_grad = clause % "nll_grad(params) value == the defining formula and gradient == gradient of the first batch size run (single batch)"
+            zref = None
+            for b in zbatches:
+                def zrun(b=b):
+                    fcn = config.get_fcn(_all_data(data, phsp, bg, cfit), batch=b)
+                    keep.append(fcn)
+                    v = float(fcn({}))
+                    vg, g = fcn.nll_grad({})
+                    return v, float(vg), np.asarray(g, dtype=float)
+
+                res, exc = _try(zrun)
+                ctx.count(key=("zero", model, b), sample={"model": model, "batch": b, "zero_weight_rows": zrows, "nll": res[0] if res else exc, "formula": expect})
+                wit = {"model": model, "batch": b, "n_rows": zn, "n_phsp": zn_phsp, "sample_seed": 78, "zero_weight_rows": zrows, "formula": expect, "raised": exc}
+                if exc is not None:
+                    agg.add("batch_zero_weight/fcn/" + model, False, c_fcn, wit)
+                    agg.add("batch_zero_weight/nll_grad/" + model, False, c_grad, wit)
+                    continue
+                v, vg, g = res
+                if zref is None:
+                    zref = g
+                gtol = 1e-9 * float(np.max(np.abs(zref))) + 1e-12
+                wit.update({"fcn": v, "nll_grad[0]": vg, "max|dg|": float(np.max(np.abs(g - zref)))})
+                agg.add("batch_zero_weight/fcn/" + model, _veq(v, expect), c_fcn, wit)
+                agg.add("batch_zero_weight/nll_grad/" + model, _veq(vg, expect) and L.close(g, zref, 1e-9, gtol), c_grad, wit)
     agg.emit(ctx)
 
 
@@ -247,92 +356,95 @@ def nll_structure(ctx):
         fam = L.CATALOGUE[model][1]
         cfit = fam.startswith("cfit")
         for with_gauss in (False, True):
-            cons = {"gauss_constr": {k: v for k, v in gc_all.items() if not (k.endswith("_mass") and model in L.NO_FLOAT_MW)}} if with_gauss else None
-            extra = {"bg_weight": [0.3, 0.45]}
-            if cfit:
-                extra["bg_frac"] = [0.23, 0.31]
-            config = L.build(ctx, L.tiny_dict(model, extra_data=extra, constrains=cons), seed=13)
-            d1, p1, b1 = L.make_samples(config, 131, cfit=cfit)
-            d2, p2, b2 = L.make_samples(config, 132, n_data=31, n_phsp=45, n_bg=9, cfit=cfit, bg_weights="user")
+            with _case(ctx, agg, "combine/gauss_constr" if with_gauss else "combine/sum_of_parts", _RAISE_CLAUSE, {"model": model, "gauss": with_gauss, "sample_seeds": [131, 132]}):
+                cons = {"gauss_constr": {k: v for k, v in gc_all.items() if not (k.endswith("_mass") and model in L.NO_FLOAT_MW)}} if with_gauss else None
+                extra = {"bg_weight": [0.3, 0.45]}
+                if cfit:
+                    extra["bg_frac"] = [0.23, 0.31]
+                config = L.build(ctx, L.tiny_dict(model, extra_data=extra, constrains=cons), seed=13)
+                d1, p1, b1 = L.make_samples(config, 131, cfit=cfit)
+                d2, p2, b2 = L.make_samples(config, 132, n_data=31, n_phsp=45, n_bg=9, cfit=cfit, bg_weights="user")
+                with L.quiet():
+                    fcn = config.get_fcn([[d1, d2], [p1, p2], [None, None] if cfit else [b1, b2], None])
+                    keep.append(fcn)
+                    v = float(fcn({}))
+                    vg = float(fcn.nll_grad({})[0])
+                params = {k: float(x) for k, x in config.get_params().items()}
+                e1, m1 = L.oracle_nll(config, fam, d1, p1, b1, frac=0.23, w_bkg=0.3)
+                e2, m2 = L.oracle_nll(config, fam, d2, p2, b2, frac=0.31, w_bkg=0.45)
+                g = L.gauss_term(params, cons["gauss_constr"]) if with_gauss else 0.0
+                ctx.count(key=("combine", model, with_gauss), sample={"model": model, "gauss": with_gauss, "nll": v, "parts": [e1, e2], "gauss_term": g})
+                wit = {"model": model, "gauss_constr": cons, "params": params, "sample_seeds": [131, 132], "fcn": v, "nll_grad[0]": vg, "part1": e1, "part2": e2,
+                       "gauss_term": g, "expected": e1 + e2 + g}
+                agg.add("precondition/density_above_clip", min(m1, m2) > 1e-6, "harness precondition", wit)
+                name = "combine/gauss_constr" if with_gauss else "combine/sum_of_parts"
+                agg.add(name, _veq(v, e1 + e2 + g) and _veq(vg, e1 + e2 + g),
+                        "two data sets in one configuration: NLL == sum of the parts' formula values" + (" + sum (theta-mu)^2/(2 sigma^2), once" if with_gauss else ""), wit)
+    # single data set with Gaussian constraints (constrains.gauss_constr and particle-level gauss_constr)
+    for model in ("default", "cfit", "extended", "simple") if quick else tuple(m for m in L.CATALOGUE if m not in L.NO_FLOAT_MW):
+        with _case(ctx, agg, "gauss/single", _RAISE_CLAUSE, {"model": model, "sample_seed": 171}):
+            fam = L.CATALOGUE[model][1]
+            cfit = fam.startswith("cfit")
+            cons = {"gauss_constr": {"A->R_BD.CR_BD->B.D_total_0r": [1.0, 0.3]}}
+            cfg = L.tiny_dict(model, constrains=cons, particle_extra={"R_BC": {"gauss_constr": {"m": 0.012, "g": 0.02}}})
+            config = L.build(ctx, cfg, seed=17)
+            expect_c = {"A->R_BD.CR_BD->B.D_total_0r": (1.0, 0.3), "R_BC_mass": (4.16, 0.012), "R_BC_width": (0.1, 0.02)}
+            data, phsp, bg = L.make_samples(config, 171, cfit=cfit)
             with L.quiet():
-                fcn = config.get_fcn([[d1, d2], [p1, p2], [None, None] if cfit else [b1, b2], None])
+                config.set_params({"R_BC_mass": 4.171, "R_BC_width": 0.093})
+                fcn = config.get_fcn(_all_data(data, phsp, bg, cfit))
                 keep.append(fcn)
                 v = float(fcn({}))
                 vg = float(fcn.nll_grad({})[0])
             params = {k: float(x) for k, x in config.get_params().items()}
-            e1, m1 = L.oracle_nll(config, fam, d1, p1, b1, frac=0.23, w_bkg=0.3)
-            e2, m2 = L.oracle_nll(config, fam, d2, p2, b2, frac=0.31, w_bkg=0.45)
-            g = L.gauss_term(params, cons["gauss_constr"]) if with_gauss else 0.0
-            ctx.count(key=("combine", model, with_gauss), sample={"model": model, "gauss": with_gauss, "nll": v, "parts": [e1, e2], "gauss_term": g})
-            wit = {"model": model, "gauss_constr": cons, "params": params, "sample_seeds": [131, 132], "fcn": v, "nll_grad[0]": vg, "part1": e1, "part2": e2,
-                   "gauss_term": g, "expected": e1 + e2 + g}
-            agg.add("precondition/density_above_clip", min(m1, m2) > 1e-6, "harness precondition", wit)
-            name = "combine/gauss_constr" if with_gauss else "combine/sum_of_parts"
-            agg.add(name, _veq(v, e1 + e2 + g) and _veq(vg, e1 + e2 + g),
-                    "two data sets in one configuration: NLL == sum of the parts' formula values" + (" + sum (theta-mu)^2/(2 sigma^2), once" if with_gauss else ""), wit)
-    # single data set with Gaussian constraints (constrains.gauss_constr and particle-level gauss_constr)
-    for model in ("default", "cfit", "extended", "simple") if quick else tuple(m for m in L.CATALOGUE if m not in L.NO_FLOAT_MW):
-        fam = L.CATALOGUE[model][1]
-        cfit = fam.startswith("cfit")
-        cons = {"gauss_constr": {"A->R_BD.CR_BD->B.D_total_0r": [1.0, 0.3]}}
-        cfg = L.tiny_dict(model, constrains=cons, particle_extra={"R_BC": {"gauss_constr": {"m": 0.012, "g": 0.02}}})
-        config = L.build(ctx, cfg, seed=17)
-        expect_c = {"A->R_BD.CR_BD->B.D_total_0r": (1.0, 0.3), "R_BC_mass": (4.16, 0.012), "R_BC_width": (0.1, 0.02)}
-        data, phsp, bg = L.make_samples(config, 171, cfit=cfit)
-        with L.quiet():
-            config.set_params({"R_BC_mass": 4.171, "R_BC_width": 0.093})
-            fcn = config.get_fcn(_all_data(data, phsp, bg, cfit))
-            keep.append(fcn)
-            v = float(fcn({}))
-            vg = float(fcn.nll_grad({})[0])
-        params = {k: float(x) for k, x in config.get_params().items()}
-        e, m = L.oracle_nll(config, fam, data, phsp, bg)
-        g = L.gauss_term(params, expect_c)
-        ctx.count(key=("gauss", model), sample={"model": model, "nll": v, "formula": e, "gauss_term": g})
-        wit = {"model": model, "constraints": expect_c, "params": params, "sample_seed": 171, "fcn": v, "nll_grad[0]": vg, "formula": e, "gauss_term": g}
-        # models whose formula value already fails (iface.nll/formula) are not re-reported here: compare the increment
-        with L.quiet():
-            plain = L.build(ctx, L.tiny_dict(model), seed=17)
-            plain.set_params({k: params[k] for k in plain.get_params() if k in params})
-            f2 = plain.get_fcn(_all_data(data, phsp, bg, cfit))
-            keep.append(f2)
-            v_plain = float(f2({}))
-            vg_plain = float(f2.nll_grad({})[0])
-        wit["fcn_without_constraint"] = v_plain
-        agg.add("gauss/single", g > 1e-3 and _veq(v - v_plain, g, atol=1e-9) and _veq(vg - vg_plain, g, atol=1e-9),
-                "NLL with constraints - NLL without == sum (theta-mu)^2/(2 sigma^2) for constraints configured globally and per particle "
-                "(mu = configured mass / width)", wit)
+            e, m = L.oracle_nll(config, fam, data, phsp, bg)
+            g = L.gauss_term(params, expect_c)
+            ctx.count(key=("gauss", model), sample={"model": model, "nll": v, "formula": e, "gauss_term": g})
+            wit = {"model": model, "constraints": expect_c, "params": params, "sample_seed": 171, "fcn": v, "nll_grad[0]": vg, "formula": e, "gauss_term": g}
+            # models whose formula value already fails (iface.nll/formula) are not re-reported here: compare the increment
+            with L.quiet():
+                plain = L.build(ctx, L.tiny_dict(model), seed=17)
+                plain.set_params({k: params[k] for k in plain.get_params() if k in params})
+                f2 = plain.get_fcn(_all_data(data, phsp, bg, cfit))
+                keep.append(f2)
+                v_plain = float(f2({}))
+                vg_plain = float(f2.nll_grad({})[0])
+            wit["fcn_without_constraint"] = v_plain
+            agg.add("gauss/single", g > 1e-3 and _veq(v - v_plain, g, atol=1e-9) and _veq(vg - vg_plain, g, atol=1e-9),
+                    "NLL with constraints - NLL without == sum (theta-mu)^2/(2 sigma^2) for constraints configured globally and per particle "
+                    "(mu = configured mass / width)", wit)
     # MultiConfig: two configurations sharing one VarsManager
     for fresh in (False, True):
-        cons = {"gauss_constr": {"R_BC_mass": [4.165, 0.012]}}
-        cfgs = [L.tiny_dict("default", constrains=cons), L.tiny_dict("extended", constrains=cons, extra_data={"bg_weight": 0.45})]
-        with L.quiet():
-            mc = cl.MultiConfig([copy.deepcopy(c) for c in cfgs], total_same=True)
-            if fresh:
-                # deterministic parameters without touching the MultiConfig object itself
-                for c in mc.configs:
-                    c.get_amplitude()
-                mc.configs[0].set_params(L.seeded_params(mc.configs[0], 1019))
-            else:
-                mc.get_amplitudes()
-                mc.set_params(L.seeded_params(mc.configs[0], 1019))
-        c0, c1 = mc.configs
-        d1, p1, b1 = L.make_samples(c0, 191)
-        d2, p2, b2 = L.make_samples(c1, 192, n_data=31, n_phsp=45, n_bg=9)
-        with L.quiet():
-            fcn = mc.get_fcn(datas=[[[d1], [p1], [b1], None], [[d2], [p2], [b2], None]])
-            keep.append(fcn)
-            v = float(fcn({}))
-            vg = float(fcn.nll_grad({})[0])
-        params = {k: float(x) for k, x in mc.get_params().items()}
-        e1, m1 = L.oracle_nll(c0, "std", d1, p1, b1, w_bkg=0.3)
-        e2, m2 = L.oracle_nll(c1, "ext", d2, p2, b2, w_bkg=0.45)
-        g = L.gauss_term(params, cons["gauss_constr"])
-        ctx.count(key=("multiconfig", fresh), sample={"fresh": fresh, "nll": v, "parts": [e1, e2], "gauss_term": g})
-        wit = {"fresh_multiconfig": fresh, "params": params, "fcn": v, "nll_grad[0]": vg, "part1": e1, "part2": e2, "gauss_term": g, "expected": e1 + e2 + g}
-        agg.add("multiconfig/sum_of_parts_gauss" + ("_fresh" if fresh else ""), g > 1e-3 and _veq(v, e1 + e2 + g) and _veq(vg, e1 + e2 + g),
-                "MultiConfig.get_fcn(datas): NLL == sum of the parts + the configured Gaussian constraint (once)"
-                + (" - get_fcn is the first call on the MultiConfig object" if fresh else " - after get_amplitudes()/set_params"), wit)
+        with _case(ctx, agg, "multiconfig/sum_of_parts_gauss" + ("_fresh" if fresh else ""), "MultiConfig: " + _RAISE_CLAUSE, {"fresh_multiconfig": fresh, "sample_seeds": [191, 192]}):
+            cons = {"gauss_constr": {"R_BC_mass": [4.165, 0.012]}}
+            cfgs = [L.tiny_dict("default", constrains=cons), L.tiny_dict("extended", constrains=cons, extra_data={"bg_weight": 0.45})]
+            with L.quiet():
+                mc = cl.MultiConfig([copy.deepcopy(c) for c in cfgs], total_same=True)
+                if fresh:
+                    # deterministic parameters without touching the MultiConfig object itself
+                    for c in mc.configs:
+                        c.get_amplitude()
+                    mc.configs[0].set_params(L.seeded_params(mc.configs[0], 1019))
+                else:
+                    mc.get_amplitudes()
+                    mc.set_params(L.seeded_params(mc.configs[0], 1019))
+            c0, c1 = mc.configs
+            d1, p1, b1 = L.make_samples(c0, 191)
+            d2, p2, b2 = L.make_samples(c1, 192, n_data=31, n_phsp=45, n_bg=9)
+            with L.quiet():
+                fcn = mc.get_fcn(datas=[[[d1], [p1], [b1], None], [[d2], [p2], [b2], None]])
+                keep.append(fcn)
+                v = float(fcn({}))
+                vg = float(fcn.nll_grad({})[0])
+            params = {k: float(x) for k, x in mc.get_params().items()}
+            e1, m1 = L.oracle_nll(c0, "std", d1, p1, b1, w_bkg=0.3)
+            e2, m2 = L.oracle_nll(c1, "ext", d2, p2, b2, w_bkg=0.45)
+            g = L.gauss_term(params, cons["gauss_constr"])
+            ctx.count(key=("multiconfig", fresh), sample={"fresh": fresh, "nll": v, "parts": [e1, e2], "gauss_term": g})
+            wit = {"fresh_multiconfig": fresh, "params": params, "fcn": v, "nll_grad[0]": vg, "part1": e1, "part2": e2, "gauss_term": g, "expected": e1 + e2 + g}
+            agg.add("multiconfig/sum_of_parts_gauss" + ("_fresh" if fresh else ""), g > 1e-3 and _veq(v, e1 + e2 + g) and _veq(vg, e1 + e2 + g),
+                    "MultiConfig.get_fcn(datas): NLL == sum of the parts + the configured Gaussian constraint (once)"
+                    + (" - get_fcn is the first call on the MultiConfig object" if fresh else " - after get_amplitudes()/set_params"), wit)
     # ---- (d) repeated use in one session, as in a user's loop over toy samples: `fcn = config.get_fcn(sample)`; evaluate; next round.
     # The previous FCN is released when the name is re-bound and CPython hands the addresses of its batch lists (public attributes
     # FCN.batch_data / FCN.batch_mcdata) to later lists.  Phase 1 evaluates 9 FCNs (cached_int: 3) over 3 samples of equal size.  Phase 2 keeps
@@ -340,44 +452,45 @@ def nll_structure(ctx):
     # earlier FCN's list of a DIFFERENT sample (harness bookkeeping only; at most `max_cand` candidates, 2 hits), and the last one.
     max_cand = 600 if quick else 2000
     for model in ("default",) + L.CACHED:
-        fam = L.CATALOGUE[model][1]
-        cfit = fam.startswith("cfit")
-        config = L.build(ctx, L.tiny_dict(model), seed=19)
-        smp = [L.make_samples(config, 1900 + j, cfit=cfit) for j in range(3)]
-        if cfit:  # efficiency 1: keeps this obligation independent of formula/grad_value/cfit_cached
-            for d_, p_, _b in smp:
-                d_["eff_value"] = np.ones(40)
-                p_["eff_value"] = np.ones(60)
-        expect = [L.oracle_nll(config, fam, *sm)[0] for sm in smp]
-        params = {k: float(x) for k, x in config.get_params().items()}
-        n_first = 3 if model == "cached_int" else 9  # evaluating a cached_int FCN costs ~2.5 s of tracing
-        order = [0, 1, 2] * (n_first // 3) + [int(q) for q in np.random.RandomState(190).randint(0, 3, max_cand)]
-        seen_data, seen_mc, history = {}, {}, []
-        fcn = None
-        hits = 0
-        for t in range(n_first + max_cand):
-            j = order[t]
-            with L.quiet():
-                fcn = config.get_fcn(_all_data(smp[j][0], smp[j][1], smp[j][2], cfit))  # re-binding releases the previous FCN
-            reused = seen_data.get(id(fcn.batch_data), j) != j or seen_mc.get(id(fcn.batch_mcdata), j) != j
-            last = t == n_first + max_cand - 1 or (reused and hits == 1)
-            if not (t < n_first or reused or last):
-                continue
-            hits += int(reused)
-            res, exc = _try(lambda: (float(fcn({})), float(fcn.nll_grad({})[0])))
-            seen_data[id(fcn.batch_data)] = j
-            seen_mc[id(fcn.batch_mcdata)] = j
-            history.append(1900 + j)
-            ctx.count(key=("second_fcn", model, t), sample={"model": model, "fcn_number": t, "address_reused": reused, "result": res or exc, "formula": expect[j]})
-            wit = {"model": model, "fcn_number_in_session": t, "sample_seed": 1900 + j, "sample_seeds_of_evaluated_earlier_fcns": history[:-1],
-                   "list_address_of_an_evaluated_earlier_fcn_with_other_data_reused": reused, "formula": expect[j],
-                   "[fcn, nll_grad[0]]": res, "raised": exc, "params": params}
-            agg.add("session/second_fcn/" + model, exc is None and _veq(res[0], expect[j]) and _veq(res[1], expect[j]),
-                    "get_fcn(new data) on a configuration used before (earlier FCNs released): fcn and nll_grad value == formula value of the NEW data", wit)
-            if last:
-                break
-        ctx.count(key=("second_fcn_reuse", model), sample={"model": model, "fcns_built": t + 1, "evaluated_with_reused_list_address": hits})
-        fcn = None
+        with _case(ctx, agg, "session/second_fcn/" + model, _RAISE_CLAUSE, {"model": model, "sample_seeds": [1900, 1901, 1902]}):
+            fam = L.CATALOGUE[model][1]
+            cfit = fam.startswith("cfit")
+            config = L.build(ctx, L.tiny_dict(model), seed=19)
+            smp = [L.make_samples(config, 1900 + j, cfit=cfit) for j in range(3)]
+            if cfit:  # efficiency 1: keeps this obligation independent of formula/grad_value/cfit_cached
+                for d_, p_, _b in smp:
+                    d_["eff_value"] = np.ones(40)
+                    p_["eff_value"] = np.ones(60)
+            expect = [L.oracle_nll(config, fam, *sm)[0] for sm in smp]
+            params = {k: float(x) for k, x in config.get_params().items()}
+            n_first = 3 if model == "cached_int" else 9  # evaluating a cached_int FCN costs ~2.5 s of tracing
+            order = [0, 1, 2] * (n_first // 3) + [int(q) for q in np.random.RandomState(190).randint(0, 3, max_cand)]
+            seen_data, seen_mc, history = {}, {}, []
+            fcn = None
+            hits = 0
+            for t in range(n_first + max_cand):
+                j = order[t]
+                with L.quiet():
+                    fcn = config.get_fcn(_all_data(smp[j][0], smp[j][1], smp[j][2], cfit))  # re-binding releases the previous FCN
+                reused = seen_data.get(id(fcn.batch_data), j) != j or seen_mc.get(id(fcn.batch_mcdata), j) != j
+                last = t == n_first + max_cand - 1 or (reused and hits == 1)
+                if not (t < n_first or reused or last):
+                    continue
+                hits += int(reused)
+                res, exc = _try(lambda: (float(fcn({})), float(fcn.nll_grad({})[0])))
+                seen_data[id(fcn.batch_data)] = j
+                seen_mc[id(fcn.batch_mcdata)] = j
+                history.append(1900 + j)
+                ctx.count(key=("second_fcn", model, t), sample={"model": model, "fcn_number": t, "address_reused": reused, "result": res or exc, "formula": expect[j]})
+                wit = {"model": model, "fcn_number_in_session": t, "sample_seed": 1900 + j, "sample_seeds_of_evaluated_earlier_fcns": history[:-1],
+                       "list_address_of_an_evaluated_earlier_fcn_with_other_data_reused": reused, "formula": expect[j],
+                       "[fcn, nll_grad[0]]": res, "raised": exc, "params": params}
+                agg.add("session/second_fcn/" + model, exc is None and _veq(res[0], expect[j]) and _veq(res[1], expect[j]),
+                        "get_fcn(new data) on a configuration used before (earlier FCNs released): fcn and nll_grad value == formula value of the NEW data", wit)
+                if last:
+                    break
+            ctx.count(key=("second_fcn_reuse", model), sample={"model": model, "fcns_built": t + 1, "evaluated_with_reused_list_address": hits})
+            fcn = None
     agg.emit(ctx)
 
 
@@ -419,6 +532,14 @@ def _fd_check(fg, x, nll_scale):
 
 
 def _deriv_case(ctx, agg, tag, fcn, x, n_p, seed, with_hess=True, with_hessp=True, extra_wit=None):
+    """all C07 clauses for one likelihood object `fcn` at the point x; an exception of fcn(x) / fcn.nll_grad(x) (the calls that are not
+    individually guarded) fails grad/<tag> with the exception as witness instead of crashing the group"""
+    with _case(ctx, agg, "grad/" + tag, "fcn(x) and fcn.nll_grad(x) return a value and a gradient", dict(extra_wit or {}, case=tag, x=L.fl(x))):
+        return _deriv_case_checked(ctx, agg, tag, fcn, x, n_p, seed, with_hess, with_hessp, extra_wit)
+    return None
+
+
+def _deriv_case_checked(ctx, agg, tag, fcn, x, n_p, seed, with_hess=True, with_hessp=True, extra_wit=None):
     """all C07 clauses for one likelihood object `fcn` at the point x (values of the trainable parameters, in order)"""
     x = np.asarray(x, dtype=float)
     n = len(x)
@@ -503,28 +624,33 @@ def _deriv_models(ctx, models):
     np.random.seed(ctx.seed + 70)
     agg = Agg()
     keep = []
-    quick = ctx.tier == "quick"
     for model in models:
-        config = _c07_config(ctx, model, seed=23)
-        with L.quiet():
-            fcn = config.get_fcn(_c07_samples(config, model, 231))
-            keep.append(fcn)
-            if model not in L.NO_FLOAT_MW:
-                config.set_params({"R_BC_mass": 4.168, "R_BC_width": 0.104})
-            x = np.array(fcn.vm.get_all_val(), dtype=float)
-        n_p = 3 if (model == "default" or not quick) else 1
-        # cached_amp: forward-over-reverse through its tf.function costs ~50 s of tracing: Hessian-vector products only in the thorough tier
-        _deriv_case(ctx, agg, model, fcn, x, n_p, seed=2300, with_hessp=not (quick and model == "cached_amp"),
-                    extra_wit={"model": model, "sample_seed": 231, "constrains": _C07_CONS})
-        if not quick:
-            # a second point, 3 resonances
-            config = L.build(ctx, L.tiny_dict(model, n_res=3, constrains=_C07_CONS), seed=29)
-            with L.quiet():
-                fcn = config.get_fcn(_c07_samples(config, model, 291))
-                keep.append(fcn)
-                x = np.array(fcn.vm.get_all_val(), dtype=float)
-            _deriv_case(ctx, agg, model, fcn, x, 2, seed=2900, extra_wit={"model": model, "sample_seed": 291, "n_res": 3, "constrains": _C07_CONS})
+        with _case(ctx, agg, "grad/" + model, _RAISE_CLAUSE, {"model": model, "sample_seeds": [231, 291], "constrains": _C07_CONS}):
+            _deriv_one_model(ctx, agg, keep, model)
     agg.emit(ctx)
+
+
+def _deriv_one_model(ctx, agg, keep, model):
+    quick = ctx.tier == "quick"
+    config = _c07_config(ctx, model, seed=23)
+    with L.quiet():
+        fcn = config.get_fcn(_c07_samples(config, model, 231))
+        keep.append(fcn)
+        if model not in L.NO_FLOAT_MW:
+            config.set_params({"R_BC_mass": 4.168, "R_BC_width": 0.104})
+        x = np.array(fcn.vm.get_all_val(), dtype=float)
+    n_p = 3 if (model == "default" or not quick) else 1
+    # cached_amp: forward-over-reverse through its tf.function costs ~50 s of tracing: Hessian-vector products only in the thorough tier
+    _deriv_case(ctx, agg, model, fcn, x, n_p, seed=2300, with_hessp=not (quick and model == "cached_amp"),
+                extra_wit={"model": model, "sample_seed": 231, "constrains": _C07_CONS})
+    if not quick:
+        # a second point, 3 resonances
+        config = L.build(ctx, L.tiny_dict(model, n_res=3, constrains=_C07_CONS), seed=29)
+        with L.quiet():
+            fcn = config.get_fcn(_c07_samples(config, model, 291))
+            keep.append(fcn)
+            x = np.array(fcn.vm.get_all_val(), dtype=float)
+        _deriv_case(ctx, agg, model, fcn, x, 2, seed=2900, extra_wit={"model": model, "sample_seed": 291, "n_res": 3, "constrains": _C07_CONS})
 
 
 _C07_BOUND = ("quick: every model at one seeded parameter point (7-8 free parameters: couplings, one shared pair, mass and width of R_BC floating "
@@ -574,149 +700,153 @@ def deriv_bounds(ctx):
     quick = ctx.tier == "quick"
     # ---- (a) bound transforms
     for model in ("default",) if quick else ("default", "cfit", "extended"):
-        config = _c07_config(ctx, model, seed=31)
-        with L.quiet():
-            fcn = config.get_fcn(_c07_samples(config, model, 311))
-            keep.append(fcn)
-            config.set_params({"R_BC_mass": 4.168, "R_BC_width": 0.104})
-        vm = fcn.vm
-        for bi, bset in enumerate(_bound_sets(quick)):
-            tag = "%s/rot%d" % (model, bi)
+        with _case(ctx, agg, "bound/trans_fcn_grad", "bound transformations: " + _RAISE_CLAUSE, {"model": model, "sample_seed": 311}):
+            config = _c07_config(ctx, model, seed=31)
             with L.quiet():
-                vm.set_bound(dict(bset), overwrite=True)
-                x = np.array(vm.get_all_val(True), dtype=float)
-                y = np.array(vm.get_all_val(False), dtype=float)
-                f_g = vm.trans_fcn_grad(fcn.nll_grad)
-                f_h = vm.trans_f_grad_hess(fcn.nll_grad_hessian)
-                f_p = vm.trans_grad_hessp(fcn.grad_hessp)
-            names = list(vm.trainable_vars)
-            wit0 = {"model": model, "bounds": {k: list(v) for k, v in bset.items()}, "names": names, "x_fit": L.fl(x), "y_physical": L.fl(y), "sample_seed": 311}
-
-            def fg(xx):
+                fcn = config.get_fcn(_c07_samples(config, model, 311))
+                keep.append(fcn)
+                config.set_params({"R_BC_mass": 4.168, "R_BC_width": 0.104})
+            vm = fcn.vm
+            for bi, bset in enumerate(_bound_sets(quick)):
+                tag = "%s/rot%d" % (model, bi)
                 with L.quiet():
-                    v, g = f_g(np.asarray(xx, dtype=float))
-                return float(v), np.asarray(g, dtype=float)
+                    vm.set_bound(dict(bset), overwrite=True)
+                    x = np.array(vm.get_all_val(True), dtype=float)
+                    y = np.array(vm.get_all_val(False), dtype=float)
+                    f_g = vm.trans_fcn_grad(fcn.nll_grad)
+                    f_h = vm.trans_f_grad_hess(fcn.nll_grad_hessian)
+                    f_p = vm.trans_grad_hessp(fcn.grad_hessp)
+                names = list(vm.trainable_vars)
+                wit0 = {"model": model, "bounds": {k: list(v) for k, v in bset.items()}, "names": names, "x_fit": L.fl(x), "y_physical": L.fl(y), "sample_seed": 311}
 
-            v0, g0 = fg(x)
-            scale_v = max(1.0, abs(v0))
-            dv, dg, smooth = _fd_check(fg, x, scale_v)
-            hfd = 0.5 * (dg + dg.T)
-            scale_g = max(1.0, float(np.max(np.abs(g0))))
-            ctx.count(key=("bound", tag), sample={"case": tag, "bounds": wit0["bounds"], "max|g - fd|": float(np.max(np.abs(g0 - dv)))})
-            agg.add("precondition/fd_smooth", smooth, "harness: raw central differences agree with their Richardson extrapolation", wit0)
-            agg.add("bound/trans_fcn_grad", L.close(g0, dv, RTOL_D, ATOL_D * scale_v),
-                    "vm.trans_fcn_grad(fcn.nll_grad)(x): gradient == d value / dx in the fit variable x (y = bound(x))",
-                    dict(wit0, returned_grad=L.fl(g0), fd_of_returned_value=L.fl(dv)))
-            res, exc = _try(lambda: f_h(x))
-            if exc is None:
-                vh, gh, hh = float(res[0]), np.asarray(res[1], dtype=float), np.asarray(res[2], dtype=float)
-                agg.add("bound/trans_f_grad_hess", L.close(hh, hfd, RTOL_D, ATOL_D * scale_g) and _veq(vh, v0) and L.close(gh, g0, 1e-9, 1e-9 * scale_g),
-                        "vm.trans_f_grad_hess(fcn.nll_grad_hessian)(x): Hessian == d(transformed gradient)/dx, value and gradient as trans_fcn_grad",
-                        dict(wit0, returned_hessian=L.fl(hh), fd_of_transformed_gradient=L.fl(hfd), value=vh, value_trans_fcn_grad=v0))
-            else:
-                agg.add("bound/trans_f_grad_hess", False, "trans_f_grad_hess wrapper returns", dict(wit0, raised=exc))
-            rs = np.random.RandomState(3100 + bi)
-            for k in range(2 if quick else 3):
-                if L.CATALOGUE[model][1].startswith("cfit"):
-                    break  # cfit-family Hessian-vector products are refuted without any bound already (models_b hessp/<model>)
-                p = rs.uniform(-1, 1, len(x))
-                res, exc = _try(lambda: f_p(x, p))
+                def fg(xx):
+                    with L.quiet():
+                        v, g = f_g(np.asarray(xx, dtype=float))
+                    return float(v), np.asarray(g, dtype=float)
+
+                v0, g0 = fg(x)
+                scale_v = max(1.0, abs(v0))
+                dv, dg, smooth = _fd_check(fg, x, scale_v)
+                hfd = 0.5 * (dg + dg.T)
+                scale_g = max(1.0, float(np.max(np.abs(g0))))
+                ctx.count(key=("bound", tag), sample={"case": tag, "bounds": wit0["bounds"], "max|g - fd|": float(np.max(np.abs(g0 - dv)))})
+                agg.add("precondition/fd_smooth", smooth, "harness: raw central differences agree with their Richardson extrapolation", wit0)
+                agg.add("bound/trans_fcn_grad", L.close(g0, dv, RTOL_D, ATOL_D * scale_v),
+                        "vm.trans_fcn_grad(fcn.nll_grad)(x): gradient == d value / dx in the fit variable x (y = bound(x))",
+                        dict(wit0, returned_grad=L.fl(g0), fd_of_returned_value=L.fl(dv)))
+                res, exc = _try(lambda: f_h(x))
                 if exc is None:
-                    gp, hp = np.asarray(res[0], dtype=float), np.asarray(res[1], dtype=float)
-                    ctx.count(key=("bound", tag, "p", k), sample={"case": tag, "p": L.fl(p)})
-                    agg.add("bound/trans_grad_hessp", L.close(hp, hfd @ p, RTOL_D, ATOL_D * scale_g * math.sqrt(len(x))) and L.close(gp, g0, 1e-9, 1e-9 * scale_g),
-                            "vm.trans_grad_hessp(fcn.grad_hessp)(x, p) == (transformed gradient, (d transformed gradient/dx) . p)",
-                            dict(wit0, p=L.fl(p), returned_hessp=L.fl(hp), fd_hessian_times_p=L.fl(hfd @ p)))
+                    vh, gh, hh = float(res[0]), np.asarray(res[1], dtype=float), np.asarray(res[2], dtype=float)
+                    agg.add("bound/trans_f_grad_hess", L.close(hh, hfd, RTOL_D, ATOL_D * scale_g) and _veq(vh, v0) and L.close(gh, g0, 1e-9, 1e-9 * scale_g),
+                            "vm.trans_f_grad_hess(fcn.nll_grad_hessian)(x): Hessian == d(transformed gradient)/dx, value and gradient as trans_fcn_grad",
+                            dict(wit0, returned_hessian=L.fl(hh), fd_of_transformed_gradient=L.fl(hfd), value=vh, value_trans_fcn_grad=v0))
                 else:
-                    agg.add("bound/trans_grad_hessp", False, "trans_grad_hessp wrapper returns", dict(wit0, p=L.fl(p), raised=exc))
-            with L.quiet():
-                vm.remove_bound()
+                    agg.add("bound/trans_f_grad_hess", False, "trans_f_grad_hess wrapper returns", dict(wit0, raised=exc))
+                rs = np.random.RandomState(3100 + bi)
+                for k in range(2 if quick else 3):
+                    if L.CATALOGUE[model][1].startswith("cfit"):
+                        break  # cfit-family Hessian-vector products are refuted without any bound already (models_b hessp/<model>)
+                    p = rs.uniform(-1, 1, len(x))
+                    res, exc = _try(lambda: f_p(x, p))
+                    if exc is None:
+                        gp, hp = np.asarray(res[0], dtype=float), np.asarray(res[1], dtype=float)
+                        ctx.count(key=("bound", tag, "p", k), sample={"case": tag, "p": L.fl(p)})
+                        agg.add("bound/trans_grad_hessp", L.close(hp, hfd @ p, RTOL_D, ATOL_D * scale_g * math.sqrt(len(x))) and L.close(gp, g0, 1e-9, 1e-9 * scale_g),
+                                "vm.trans_grad_hessp(fcn.grad_hessp)(x, p) == (transformed gradient, (d transformed gradient/dx) . p)",
+                                dict(wit0, p=L.fl(p), returned_hessp=L.fl(hp), fd_hessian_times_p=L.fl(hfd @ p)))
+                    else:
+                        agg.add("bound/trans_grad_hessp", False, "trans_grad_hessp wrapper returns", dict(wit0, p=L.fl(p), raised=exc))
+                with L.quiet():
+                    vm.remove_bound()
     # ---- (b) Gaussian constraints: FCN and CombineFCN
     for model in ("default", "cfit") if quick else tuple(L.CATALOGUE):
-        config = _c07_config(ctx, model, seed=37, gauss=True)
-        with L.quiet():
-            fcn = config.get_fcn(_c07_samples(config, model, 371))
-            keep.append(fcn)
-            if model not in L.NO_FLOAT_MW:
-                config.set_params({"R_BC_mass": 4.171, "R_BC_width": 0.104})
-            x = np.array(fcn.vm.get_all_val(), dtype=float)
-        sub = Agg()
-        _deriv_case(ctx, sub, "x", fcn, x, 1 if quick else 2, seed=3700, extra_wit={"model": model, "sample_seed": 371, "gauss_constr": config.gauss_constr_dic})
-        for nm, it in sub.items.items():
-            if nm.startswith("precondition"):
-                agg.add(nm, it["ok"], it["clause"], it["witness"])
-            else:
-                kind = nm.split("/")[0]
-                # cfit-family Hessian-vector products fail without any constraint already (hessp/<model>): not re-reported under gauss/
-                if kind == "hessp" and L.CATALOGUE[model][1].startswith("cfit"):
-                    continue
-                # simple_cfit: Hessian refuted without any constraint already (models_b hess/simple_cfit)
-                if kind == "hess" and model == "simple_cfit":
-                    continue
-                agg.add("gauss/fcn_" + kind, it["ok"], "with Gaussian constraints: " + it["clause"], it["witness"])
+        with _case(ctx, agg, "gauss/fcn_grad", "with Gaussian constraints: " + _RAISE_CLAUSE, {"model": model, "sample_seed": 371}):
+            config = _c07_config(ctx, model, seed=37, gauss=True)
+            with L.quiet():
+                fcn = config.get_fcn(_c07_samples(config, model, 371))
+                keep.append(fcn)
+                if model not in L.NO_FLOAT_MW:
+                    config.set_params({"R_BC_mass": 4.171, "R_BC_width": 0.104})
+                x = np.array(fcn.vm.get_all_val(), dtype=float)
+            sub = Agg()
+            _deriv_case(ctx, sub, "x", fcn, x, 1 if quick else 2, seed=3700, extra_wit={"model": model, "sample_seed": 371, "gauss_constr": config.gauss_constr_dic})
+            for nm, it in sub.items.items():
+                if nm.startswith("precondition"):
+                    agg.add(nm, it["ok"], it["clause"], it["witness"])
+                else:
+                    kind = nm.split("/")[0]
+                    # cfit-family Hessian-vector products fail without any constraint already (hessp/<model>): not re-reported under gauss/
+                    if kind == "hessp" and L.CATALOGUE[model][1].startswith("cfit"):
+                        continue
+                    # simple_cfit: Hessian refuted without any constraint already (models_b hess/simple_cfit)
+                    if kind == "hess" and model == "simple_cfit":
+                        continue
+                    agg.add("gauss/fcn_" + kind, it["ok"], "with Gaussian constraints: " + it["clause"], it["witness"])
     for model in ("default",) if quick else ("default", "simple", "extended"):
-        config = _c07_config(ctx, model, seed=41, gauss=True, extra_data={"bg_weight": [0.3, 0.45]})
-        a1 = _c07_samples(config, model, 411)
-        a2 = _c07_samples(config, model, 412, n_data=31, n_phsp=45, n_bg=9)
-        with L.quiet():
-            fcn = config.get_fcn([[a1[0][0], a2[0][0]], [a1[1][0], a2[1][0]], [a1[2][0], a2[2][0]], None])
-            keep.append(fcn)
-            config.set_params({"R_BC_mass": 4.171, "R_BC_width": 0.104})
-            x = np.array(fcn.vm.get_all_val(), dtype=float)
-        sub = Agg()
-        _deriv_case(ctx, sub, "x", fcn, x, 1 if quick else 2, seed=4100, extra_wit={"model": model, "sample_seeds": [411, 412], "gauss_constr": config.gauss_constr_dic,
-                                                                                   "fcn_type": type(fcn).__name__})
-        for nm, it in sub.items.items():
-            if nm.startswith("precondition"):
-                agg.add(nm, it["ok"], it["clause"], it["witness"])
-            else:
-                agg.add("gauss/combine_" + nm.split("/")[0], it["ok"], "CombineFCN with Gaussian constraints: " + it["clause"], it["witness"])
+        with _case(ctx, agg, "gauss/combine_grad", "CombineFCN with Gaussian constraints: " + _RAISE_CLAUSE, {"model": model, "sample_seeds": [411, 412]}):
+            config = _c07_config(ctx, model, seed=41, gauss=True, extra_data={"bg_weight": [0.3, 0.45]})
+            a1 = _c07_samples(config, model, 411)
+            a2 = _c07_samples(config, model, 412, n_data=31, n_phsp=45, n_bg=9)
+            with L.quiet():
+                fcn = config.get_fcn([[a1[0][0], a2[0][0]], [a1[1][0], a2[1][0]], [a1[2][0], a2[2][0]], None])
+                keep.append(fcn)
+                config.set_params({"R_BC_mass": 4.171, "R_BC_width": 0.104})
+                x = np.array(fcn.vm.get_all_val(), dtype=float)
+            sub = Agg()
+            _deriv_case(ctx, sub, "x", fcn, x, 1 if quick else 2, seed=4100, extra_wit={"model": model, "sample_seeds": [411, 412], "gauss_constr": config.gauss_constr_dic,
+                                                                                       "fcn_type": type(fcn).__name__})
+            for nm, it in sub.items.items():
+                if nm.startswith("precondition"):
+                    agg.add(nm, it["ok"], it["clause"], it["witness"])
+                else:
+                    agg.add("gauss/combine_" + nm.split("/")[0], it["ok"], "CombineFCN with Gaussian constraints: " + it["clause"], it["witness"])
     # ---- (c) batch independence of Hessian and Hessian-vector product
     n_data, n_bg, n_phsp = 22, 7, 37
     for model in ("default", "cfit", "simple") if quick else tuple(L.CATALOGUE):
-        cfit = L.CATALOGUE[model][1].startswith("cfit")
-        config = _c07_config(ctx, model, seed=43)
-        alld = _c07_samples(config, model, 431, n_data=n_data, n_bg=n_bg, n_phsp=n_phsp)
-        n = n_data if cfit else n_data + n_bg
-        batches = ([65000, n - 1, n + 1] if model == "default" or not quick else [65000, n + 1]) + ([] if quick else [n, 7])
-        if not quick and model in ("default", "cfit", "simple"):
-            batches.append(3)
-        ref = None
-        p = np.random.RandomState(4300).uniform(-1, 1, len(config.vm.trainable_vars) + (1 if model in ("extended", "cfit_extended") else 0))
-        for b in batches:
-            def run(b=b):
-                fcn = config.get_fcn(alld, batch=b)
-                keep.append(fcn)
-                x = np.array(fcn.vm.get_all_val(), dtype=float)
-                if model == "cached_amp":
-                    # nll_grad first, as every minimiser does: on a fresh cached_amp model a grad_hessp call that is the FIRST use of its cached
-                    # tf.function raises a TensorFlow InternalError while tracing under the ForwardAccumulator (TF-internal; recorded, not asserted)
-                    fcn.nll_grad(x)
-                v, g, h = fcn.nll_grad_hessian(x)
-                out = [float(v), np.asarray(g, dtype=float), np.asarray(h, dtype=float)]
-                if not cfit and (model == "default" or not quick):  # cfit-family Hessian-vector products are already refuted (hessp/<model>)
-                    gp, hp = fcn.grad_hessp(x, p[: len(x)])
-                    out += [np.asarray(gp, dtype=float), np.asarray(hp, dtype=float)]
-                return out
+        with _case(ctx, agg, "batch/hessian_" + model, _RAISE_CLAUSE, {"model": model, "sample_seed": 431}):
+            cfit = L.CATALOGUE[model][1].startswith("cfit")
+            config = _c07_config(ctx, model, seed=43)
+            alld = _c07_samples(config, model, 431, n_data=n_data, n_bg=n_bg, n_phsp=n_phsp)
+            n = n_data if cfit else n_data + n_bg
+            batches = ([65000, n - 1, n + 1] if model == "default" or not quick else [65000, n + 1]) + ([] if quick else [n, 7])
+            if not quick and model in ("default", "cfit", "simple"):
+                batches.append(3)
+            ref = None
+            p = np.random.RandomState(4300).uniform(-1, 1, len(config.vm.trainable_vars) + (1 if model in ("extended", "cfit_extended") else 0))
+            for b in batches:
+                def run(b=b):
+                    fcn = config.get_fcn(alld, batch=b)
+                    keep.append(fcn)
+                    x = np.array(fcn.vm.get_all_val(), dtype=float)
+                    if model == "cached_amp":
+                        # nll_grad first, as every minimiser does: on a fresh cached_amp model a grad_hessp call that is the FIRST use of its cached
+                        # tf.function raises a TensorFlow InternalError while tracing under the ForwardAccumulator (TF-internal; recorded, not asserted)
+                        fcn.nll_grad(x)
+                    v, g, h = fcn.nll_grad_hessian(x)
+                    out = [float(v), np.asarray(g, dtype=float), np.asarray(h, dtype=float)]
+                    if not cfit and (model == "default" or not quick):  # cfit-family Hessian-vector products are already refuted (hessp/<model>)
+                        gp, hp = fcn.grad_hessp(x, p[: len(x)])
+                        out += [np.asarray(gp, dtype=float), np.asarray(hp, dtype=float)]
+                    return out
 
-            res, exc = _try(run)
-            ctx.count(key=("batch", model, b), sample={"model": model, "batch": b, "raised": exc})
-            wit = {"model": model, "batch": b, "n_rows": n, "n_phsp": n_phsp, "sample_seed": 431, "raised": exc}
-            if exc is not None:
+                res, exc = _try(run)
+                ctx.count(key=("batch", model, b), sample={"model": model, "batch": b, "raised": exc})
+                wit = {"model": model, "batch": b, "n_rows": n, "n_phsp": n_phsp, "sample_seed": 431, "raised": exc}
+                if exc is not None:
+                    agg.add("batch/hessian_" + model, False, "nll_grad_hessian / grad_hessp return for every batch size and the results do not depend on it", wit)
+                    if ref is None:
+                        break  # the reference batch size 65000 itself raised: nothing to compare the other batch sizes with
+                    continue
                 if ref is None:
-                    raise RuntimeError("reference batch failed: " + exc)
-                agg.add("batch/hessian_" + model, False, "nll_grad_hessian / grad_hessp results do not depend on the batch size", wit)
-                continue
-            if ref is None:
-                ref = res
-                continue
-            sg = max(1.0, float(np.max(np.abs(ref[1]))))
-            sh = max(1.0, float(np.max(np.abs(ref[2]))))
-            ok = _veq(res[0], ref[0]) and L.close(res[1], ref[1], 1e-9, 1e-9 * sg) and L.close(res[2], ref[2], 1e-9, 1e-9 * sh)
-            if len(res) > 3:
-                ok = ok and L.close(res[3], ref[3], 1e-9, 1e-9 * sg) and L.close(res[4], ref[4], 1e-9, 1e-9 * sh)
-            wit.update({"value": res[0], "value@65000": ref[0], "max|dH|": float(np.max(np.abs(res[2] - ref[2])))})
-            agg.add("batch/hessian_" + model, ok, "nll_grad_hessian / grad_hessp results do not depend on the batch size (vs batch 65000, rtol 1e-9)", wit)
+                    ref = res
+                    continue
+                sg = max(1.0, float(np.max(np.abs(ref[1]))))
+                sh = max(1.0, float(np.max(np.abs(ref[2]))))
+                ok = _veq(res[0], ref[0]) and L.close(res[1], ref[1], 1e-9, 1e-9 * sg) and L.close(res[2], ref[2], 1e-9, 1e-9 * sh)
+                if len(res) > 3:
+                    ok = ok and L.close(res[3], ref[3], 1e-9, 1e-9 * sg) and L.close(res[4], ref[4], 1e-9, 1e-9 * sh)
+                wit.update({"value": res[0], "value@65000": ref[0], "max|dH|": float(np.max(np.abs(res[2] - ref[2])))})
+                agg.add("batch/hessian_" + model, ok, "nll_grad_hessian / grad_hessp results do not depend on the batch size (vs batch 65000, rtol 1e-9)", wit)
     agg.emit(ctx)
 
 
@@ -728,6 +858,9 @@ _FIT_FUNCS = ["fit:fit_scipy", "fit:fit_newton_cg", "fit:fit_minuit_v2", "fit:Fi
               "variable:VarsManager.remove_bound", "variable:VarsManager.standard_complex"]
 
 _TIED = ["A->R_BC.D_g_ls_1r", "A->R_BD.C_g_ls_1r"]
+_RHO, _PHI = "A->R_BD.CR_BD->B.D_total_0r", "A->R_BD.CR_BD->B.D_total_0i"
+_RHO2 = "A->R_BD.C_g_ls_1r"
+_RHO_BC, _PHI_BC = "A->R_BC.DR_BC->B.C_total_0r", "A->R_BC.DR_BC->B.C_total_0i"
 _BASE_FIX = {"R_BC->B.C_g_ls_1r": 0.8, "R_BC->B.C_g_ls_1i": 0.4, "R_BD->B.D_g_ls_1r": 1.1, "R_BD->B.D_g_ls_1i": -0.3}
 #: constraint sets: name -> (constrains, particle_extra, start overrides, bounds expected {name: (lo, hi)}, gaussian constraints expected)
 CONSTRAINT_SETS = {
@@ -740,7 +873,23 @@ CONSTRAINT_SETS = {
     "two_sided": ({"fix_var": _BASE_FIX}, {"R_BC": {"m_min": 4.0, "m_max": 4.3, "g_min": 0.02, "g_max": 0.1}}, {"R_BC_width": 0.08},
                   {"R_BC_mass": (4.0, 4.3), "R_BC_width": (0.02, 0.1)}),
     "gauss": ({"fix_var": _BASE_FIX, "gauss_constr": {"R_BC_mass": [4.165, 0.012], "A->R_BD.CR_BD->B.D_total_0r": [1.0, 0.3]}}, None, {}, {}),
+    # limits that are EXACTLY zero (written 0 and 0.0, as lower and as upper limit, two- and one-sided).  At the seeded starting point the
+    # gradient along the relative phase of the two chains is +65 at phase(R_BD) - phase(R_BC) = 0.4: with the R_BC chain fixed, the phase of
+    # the R_BD chain started at 0.4 is pushed DOWN across its lower limit 0 (set zero_bound); with the R_BD chain fixed instead, the phase of
+    # the R_BC chain started at -0.4 is pushed UP across its upper limit 0.0 (set zero_bound_upper).  Asserted at run time at the starting
+    # point (precondition/zero_limit_pushed).  Magnitudes are kept positive so that the equivalent point (-rho, phi + pi) is excluded too.
+    "zero_bound": ({"fix_var": _BASE_FIX, "var_range": {_PHI: [0, 3.14], _RHO: [0.1, None], _RHO2: [0.0, None]}}, None, {_PHI: 0.4},
+                   {_PHI: (0, 3.14), _RHO: (0.1, None), _RHO2: (0.0, None)}),
+    "zero_bound_upper": ({"fix_var": _BASE_FIX, "decay": {"fix_chain_idx": 1, "fix_chain_val": 1.0},
+                          "var_range": {_PHI_BC: [-3.14, 0.0], _RHO_BC: [0.1, None], _TIED[0]: [0, None]}}, None, {_PHI_BC: -0.4, _RHO_BC: 0.7},
+                         {_PHI_BC: (-3.14, 0.0), _RHO_BC: (0.1, None), _TIED[0]: (0, None)}),
 }
+#: sets with limits exactly 0 -> {parameter: sign of dNLL/dparameter at the starting point that pushes the parameter across its zero limit}
+_ZERO_PUSH = {"zero_bound": {_PHI: +1.0}, "zero_bound_upper": {_PHI_BC: -1.0}}
+_ZERO_SETS = list(_ZERO_PUSH)
+#: minimiser names that go through scipy.optimize.minimize as imported by tf_pwa.fit ('test' uses fit_improve.minimize, iminuit its own limits)
+_SCIPY_METHODS = ("BFGS", "CG", "Nelder-Mead", "L-BFGS-B", "Newton-CG", "trust-ncg", "trust-krylov", "trust-exact", "Newton-CG-p", "trust-ncg-p",
+                  "trust-krylov-p")
 _FIT_CLAUSES = {
     "returns": "config.fit(...) returns a FitResult (no exception) for this minimiser name",
     "state_equals_result": "after fit: config.get_params()[name] == fit_result.params[name] for every listed name (exactly)",
@@ -751,6 +900,9 @@ _FIT_CLAUSES = {
     "inside_bounds": "bounded parameters lie inside their bounds after the fit (in the model and in the result)",
     "bnd_dic_restored": "vm.bnd_dic is what it was before the fit (empty: no bound transform left active)",
     "save_load_roundtrip": "fit_result.save_as(file); fresh ConfigLoader.set_params(file) has the same parameters (listed names) and the same NLL (rtol 1e-9)",
+    "bounds_handed_to_minimiser": "every call of scipy.optimize.minimize made by the fit receives each configured bound exactly - limit by limit, a limit "
+                                  "of 0 / 0.0 is a limit, None is no limit - either as its `bounds` entry for that parameter or as the active variable "
+                                  "transformation vm.bnd_dic[name]; parameters without a configured bound are not restricted",
 }
 
 
@@ -768,6 +920,34 @@ def _num_params(d):
     return {k: float(v) for k, v in d.items()}
 
 
+def _same_limits(got, want):
+    """(lo, hi) pairs equal limit by limit: None only equals None, numbers compare as floats (0 == 0.0)"""
+    if got is None:
+        return False
+    for g, w in zip(got, want):
+        if (g is None) != (w is None) or (g is not None and float(g) != float(w)):
+            return False
+    return True
+
+
+def _check_handed_bounds(agg, method, bounds, calls, trainable, wit):
+    """the configured bounds (from the harness' own table, not from config.bound_dic) against what each intercepted minimize call received"""
+    agg.add("precondition/minimize_intercepted", len(calls) > 0 and all(c["unreadable"] is None for c in calls),
+            "harness: the fit went through fit.minimize and its arguments could be read", dict(wit, calls=calls[:3]))
+    bad = []
+    for ci, call in enumerate(calls):
+        for name in trainable:
+            explicit, trans = L.limits_reaching_minimiser(call, name)
+            if name in bounds:
+                want = tuple(bounds[name])
+                if not (_same_limits(explicit, want) or _same_limits(trans, want)):
+                    bad.append({"call": ci, "parameter": name, "configured": list(want), "bounds_argument_entry": explicit, "active_transformation": trans})
+            elif (explicit not in (None, (None, None))) or (trans not in (None, (None, None))):
+                bad.append({"call": ci, "parameter": name, "configured": None, "bounds_argument_entry": explicit, "active_transformation": trans})
+    agg.add(method + "/bounds_handed_to_minimiser", not bad, _FIT_CLAUSES["bounds_handed_to_minimiser"],
+            dict(wit, bounds={k: list(v) for k, v in bounds.items()}, not_handed_over=bad[:6], n_minimize_calls=len(calls)))
+
+
 def _fit_once(ctx, agg, method, cset, maxiter, cfg, config, bounds, samples, tmpdir, tagextra):
     """one config.fit(...) call + all postconditions of the statement.  returns False if fit raised"""
     data, phsp, bg = samples
@@ -778,13 +958,23 @@ def _fit_once(ctx, agg, method, cset, maxiter, cfg, config, bounds, samples, tmp
     before = _num_params(config.get_params())
     trainable_before = list(vm.trainable_vars)
     bnd_before = dict(vm.bnd_dic)
+    if cset in _ZERO_PUSH and tagextra == "first":
+        # harness: at the starting point the NLL falls across the limit that is exactly 0
+        with L.quiet():
+            g_start = dict(zip(trainable_before, np.asarray(fcn0.nll_grad({})[1], dtype=float).tolist()))
+        agg.add("precondition/zero_limit_pushed", all(sign * g_start.get(k, 0.0) > 1.0 for k, sign in _ZERO_PUSH[cset].items()),
+                "harness: at the starting point of the zero-limit sets the gradient points across the limit that is exactly 0 (|dNLL/dphase| > 1)",
+                {"constraints": cset, "start_params": before, "gradient_at_start": g_start, "bounds": {k: list(v) for k, v in bounds.items()}})
     wit0 = {"method": method, "constraints": cset, "maxiter": maxiter, "run": tagextra, "sample_seed": 800, "start_params": before, "nll_start": nll_start}
     key = (method, cset, maxiter, tagextra)
 
     def run():
         return config.fit(data=[data], phsp=[phsp], bg=[bg], method=method, maxiter=maxiter, print_init_nll=False)
 
-    res, exc = _try(run)
+    with L.spy_minimize(ctx.mod("fit"), vm) as calls:
+        res, exc = _try(run)
+    if bounds and method in _SCIPY_METHODS and exc is None:
+        _check_handed_bounds(agg, method, bounds, calls, trainable_before, dict(wit0, raised=exc))
     fitres_cls = ctx.mod("fit").FitResult
     ok_ret = exc is None and isinstance(res, fitres_cls)
     ctx.count(key=key, sample={"method": method, "constraints": cset, "maxiter": maxiter, "run": tagextra, "nll_start": nll_start,
@@ -858,36 +1048,109 @@ def _fit_once(ctx, agg, method, cset, maxiter, cfg, config, bounds, samples, tmp
     return True
 
 
-def _fit_group(ctx, methods, csets, maxiters, second_fit=True):
+def _fit_group(ctx, methods, csets, maxiters, second_fit=True, agg=None):
+    """agg: shared aggregator of the calling group (one obligation per name per group); emitted here only if not given"""
     np.random.seed(ctx.seed + 80)
-    agg = Agg()
+    own = agg is None
+    agg = Agg() if own else agg
     with L.scratch_dir() as tmp:
         for method in methods:
             for cset in csets:
                 for mi in maxiters:
-                    cfg, config, bounds = _fit_config(ctx, cset, seed=47)
-                    samples = L.make_samples(config, 800, n_data=300, n_phsp=1000, n_bg=60, weights=None, phsp_weights=None)
-                    ok = _fit_once(ctx, agg, method, cset, mi, cfg, config, bounds, samples, tmp, "first")
-                    if ok and second_fit and mi == maxiters[-1]:
-                        _fit_once(ctx, agg, method, cset, mi, cfg, config, bounds, samples, tmp, "second")
-    agg.emit(ctx)
+                    with _case(ctx, agg, method + "/returns", _FIT_CLAUSES["returns"], {"method": method, "constraints": cset, "maxiter": mi, "sample_seed": 800}):
+                        cfg, config, bounds = _fit_config(ctx, cset, seed=47)
+                        samples = L.make_samples(config, 800, n_data=300, n_phsp=1000, n_bg=60, weights=None, phsp_weights=None)
+                        ok = _fit_once(ctx, agg, method, cset, mi, cfg, config, bounds, samples, tmp, "first")
+                        if ok and second_fit and mi == maxiters[-1]:
+                            _fit_once(ctx, agg, method, cset, mi, cfg, config, bounds, samples, tmp, "second")
+    if own:
+        agg.emit(ctx)
+
+
+_RELOAD_CLAUSE = ("resonance R_BC configured with `float: %s`, fit stopped early, %s(file), then ConfigLoader.set_params(file) on a FRESHLY built "
+                  "ConfigLoader: every parameter of the fitted model (floating and fixed) is reproduced exactly and so is the NLL (rtol 1e-9)")
+
+
+def _reload_fits(ctx, agg, floats, methods, maxiters):
+    """save -> load round trip through a FILE into a fresh model for each way the mass / width of a resonance can be declared floating"""
+    np.random.seed(ctx.seed + 83)
+    cl = ctx.mod("config_loader")
+    with L.scratch_dir() as tmp:
+        for method in methods:
+            for fm in floats:
+                for mi in maxiters:
+                    with _case(ctx, agg, "reload/save_as/float_" + (fm or "none"), _RELOAD_CLAUSE % (fm, "save_as"), {"float": fm, "method": method, "maxiter": mi, "sample_seed": 800}):
+                        tag = "float_" + (fm or "none")
+                        cfg = L.tiny_dict("default", float_mw=fm, constrains={"fix_var": _BASE_FIX})
+                        config = L.build(ctx, cfg, seed=47)
+                        data, phsp, bg = L.make_samples(config, 800, n_data=300, n_phsp=1000, n_bg=60, weights=None, phsp_weights=None)
+                        alld = [[data], [phsp], [bg], None]
+                        start = _num_params(config.get_params())
+                        wit0 = {"float": fm, "method": method, "maxiter": mi, "sample_seed": 800, "start_params": start,
+                                "trainable": list(config.vm.trainable_vars)}
+                        res, exc = _try(lambda: config.fit(data=[data], phsp=[phsp], bg=[bg], method=method, maxiter=mi, print_init_nll=False))
+                        ctx.count(key=("reload", method, fm, mi), sample={"float": fm, "method": method, "maxiter": mi, "min_nll": getattr(res, "min_nll", None), "raised": exc})
+                        if exc is not None:
+                            for label in ("save_as", "save_params"):
+                                agg.add("reload/%s/%s" % (label, tag), False, _RELOAD_CLAUSE % (fm, label), dict(wit0, fit_raised=exc))
+                            continue
+                        model = _num_params(config.get_params())
+                        with L.quiet():
+                            nll_model = float(config.get_fcn(alld)({}))
+                            config.set_params(model)
+                        floating = [k for k, c in (("R_BC_mass", "m"), ("R_BC_width", "g")) if fm and c in fm]
+                        agg.add("precondition/reload_fit_moved_floating", all(model[k] != start[k] for k in floating) and
+                                sorted(k for k in ("R_BC_mass", "R_BC_width") if k in wit0["trainable"]) == sorted(floating),
+                                "harness: exactly the declared mass / width parameters are trainable and the fit moved them away from the configured values",
+                                dict(wit0, model_params=model))
+                        writers = {"save_as": res.save_as, "save_params": config.save_params}
+                        for label, write in writers.items():
+                            path = os.path.join(tmp, "reload_%s_%s_%s_%s.json" % (method, tag, mi, label))
+
+                            def roundtrip(write=write, path=path):
+                                write(path)
+                                fresh = cl.ConfigLoader(copy.deepcopy(cfg))
+                                ok = fresh.set_params(path)
+                                fp = _num_params(fresh.get_params())
+                                return ok, fp, float(fresh.get_fcn(alld)({}))
+
+                            rt, exc2 = _try(roundtrip)
+                            wit = dict(wit0, model_params=model, nll_model=nll_model, min_nll=res.min_nll, written_by=label, raised=exc2)
+                            if exc2 is not None:
+                                agg.add("reload/%s/%s" % (label, tag), False, _RELOAD_CLAUSE % (fm, label), wit)
+                                continue
+                            ok, fp, nll_fresh = rt
+                            bad = {k: (model[k], fp.get(k)) for k in model if fp.get(k) != model[k]}
+                            agg.add("reload/%s/%s" % (label, tag), bool(ok) and not bad and _veq(nll_fresh, nll_model, atol=1e-9), _RELOAD_CLAUSE % (fm, label),
+                                    dict(wit, set_params_returned=ok, differing={k: list(v) for k, v in bad.items()}, nll_fresh=nll_fresh))
 
 
 _C08_BOUND = ("tiny model (A -> B C D, 2 resonances, 300 data + 60 background rows, 1000 phase-space rows, default likelihood), constraint sets "
-              "{none, fixed, tied, one_sided, two_sided, gauss} (quick: two or three of them per method), maxiter in {1, 5, 30} (thorough {1, 5, library default}), "
-              "a second fit in the same session after the last one; ")
+              "{none, fixed, tied, one_sided, two_sided, gauss, zero_bound, zero_bound_upper} (quick: two or three of them per method), maxiter in {1, 5, 30} "
+              "(thorough {1, 5, library default}), a second fit in the same session after the last one; the zero_bound sets have limits that are exactly "
+              "0 / 0.0 (phase in [0, 3.14] resp. [-3.14, 0.0] pushed against the zero limit, magnitudes in [0.0, None], [0, None], [0.1, None]; quick: "
+              "one fit, maxiter 30); for every fit with bounds that goes through scipy.optimize.minimize the call is intercepted (module attribute "
+              "fit.minimize, this process only, delegating) and the limits reaching the minimiser are compared with the configured ones; ")
 
 
 @group(["C08"], "iface.fit/first_order", _FIT_FUNCS, env="tf", kind="B",
-       bound=_C08_BOUND + "methods: BFGS (quick: sets tied, two_sided, gauss; thorough all sets, maxiter 1, 5, library default); CG, test "
-                          "(fit_improve.minimize), Nelder-Mead (quick: set none, maxiter 5; thorough: sets none, two_sided, maxiter 1, 5, 40)")
+       bound=_C08_BOUND + "methods: BFGS (quick: sets tied, two_sided, gauss + both zero_bound sets; thorough all sets, maxiter 1, 5, library default); CG, "
+                          "test (fit_improve.minimize), Nelder-Mead (quick: set none, maxiter 5; thorough: sets none, two_sided, zero_bound*, maxiter 1, 5, 40); "
+                          "reload: R_BC declared with float: m | g | mg | none, BFGS stopped after 4 iterations (thorough: also L-BFGS-B, also 30), "
+                          "FitResult.save_as and ConfigLoader.save_params, each loaded with set_params(file) into a freshly built ConfigLoader: every "
+                          "parameter of the model exactly and the NLL")
 def fit_first_order(ctx):
+    agg = Agg()
     if ctx.tier == "quick":
-        _fit_group(ctx, ["BFGS"], ["tied", "two_sided", "gauss"], [1, 5, 30])
-        _fit_group(ctx, ["CG", "test", "Nelder-Mead"], ["none"], [5], second_fit=False)
+        _fit_group(ctx, ["BFGS"], ["tied", "two_sided", "gauss"], [1, 5, 30], agg=agg)
+        _fit_group(ctx, ["BFGS"], _ZERO_SETS, [30], second_fit=False, agg=agg)
+        _fit_group(ctx, ["CG", "test", "Nelder-Mead"], ["none"], [5], second_fit=False, agg=agg)
+        _reload_fits(ctx, agg, ["m", "g", "mg", None], ["BFGS"], [4])
     else:
-        _fit_group(ctx, ["BFGS"], list(CONSTRAINT_SETS), [1, 5, None])
-        _fit_group(ctx, ["CG", "test", "Nelder-Mead"], ["none", "two_sided"], [1, 5, 40])
+        _fit_group(ctx, ["BFGS"], list(CONSTRAINT_SETS), [1, 5, None], agg=agg)
+        _fit_group(ctx, ["CG", "test", "Nelder-Mead"], ["none", "two_sided"] + _ZERO_SETS, [1, 5, 40], agg=agg)
+        _reload_fits(ctx, agg, ["m", "g", "mg", None], ["BFGS", "L-BFGS-B"], [4, 30])
+    agg.emit(ctx)
 
 
 def _have_iminuit(ctx):
@@ -908,26 +1171,28 @@ def _fit_plan(ctx, plan, seed_offset, prefit=False, second_fit=True):
     with L.scratch_dir() as tmp:
         for method, csets in plan:
             for cset in csets:
-                cfg, config, bounds = _fit_config(ctx, cset, seed=47)
-                samples = L.make_samples(config, 800, n_data=300, n_phsp=1000, n_bg=60, weights=None, phsp_weights=None)
-                if prefit:
-                    # a Hessian-vector product costs ~1.5 s and a fit from the seeded start needs ~250 of them: start these methods 0.2% away
-                    # from a BFGS optimum (harness pre-fit; "all starting points" includes this one)
-                    with L.quiet():
-                        config.fit(data=[samples[0]], phsp=[samples[1]], bg=[samples[2]], method="BFGS", print_init_nll=False)
-                        config.set_params({k: float(v) * 1.002 for k, v in config.get_params(trainable_only=True).items()})
-                if _fit_once(ctx, agg, method, cset, None, cfg, config, bounds, samples, tmp, "first") and second_fit:
-                    _fit_once(ctx, agg, method, cset, None, cfg, config, bounds, samples, tmp, "second")
+                with _case(ctx, agg, method + "/returns", _FIT_CLAUSES["returns"], {"method": method, "constraints": cset, "maxiter": None, "sample_seed": 800}):
+                    cfg, config, bounds = _fit_config(ctx, cset, seed=47)
+                    samples = L.make_samples(config, 800, n_data=300, n_phsp=1000, n_bg=60, weights=None, phsp_weights=None)
+                    if prefit:
+                        # a Hessian-vector product costs ~1.5 s and a fit from the seeded start needs ~250 of them: start these methods 0.2% away
+                        # from a BFGS optimum (harness pre-fit; "all starting points" includes this one)
+                        with L.quiet():
+                            config.fit(data=[samples[0]], phsp=[samples[1]], bg=[samples[2]], method="BFGS", print_init_nll=False)
+                            config.set_params({k: float(v) * 1.002 for k, v in config.get_params(trainable_only=True).items()})
+                    if _fit_once(ctx, agg, method, cset, None, cfg, config, bounds, samples, tmp, "first") and second_fit:
+                        _fit_once(ctx, agg, method, cset, None, cfg, config, bounds, samples, tmp, "second")
     return agg
 
 
 @group(["C08"], "iface.fit/lbfgsb_minuit", _FIT_FUNCS, env="tf", kind="B",
-       bound=_C08_BOUND + "method L-BFGS-B (quick: sets fixed, one_sided); iminuit (quick: set two_sided, one fit; thorough: tied, two_sided, gauss + second "
+       bound=_C08_BOUND + "method L-BFGS-B (quick: sets fixed, one_sided + both zero_bound sets); iminuit (quick: set two_sided, one fit; thorough: tied, two_sided, gauss + second "
                           "fit) and minuit (thorough: tied, two_sided) - the minuit names are skipped and recorded if iminuit is not importable")
 def fit_lbfgsb_minuit(ctx):
     quick = ctx.tier == "quick"
     if quick:
         _fit_group(ctx, ["L-BFGS-B"], ["fixed", "one_sided"], [1, 5, 30])
+        _fit_group(ctx, ["L-BFGS-B"], _ZERO_SETS, [30], second_fit=False)
     else:
         _fit_group(ctx, ["L-BFGS-B"], list(CONSTRAINT_SETS), [1, 5, None])
     if _have_iminuit(ctx):
@@ -936,13 +1201,13 @@ def fit_lbfgsb_minuit(ctx):
 
 
 @group(["C08"], "iface.fit/second_order", _FIT_FUNCS, env="tf", kind="B",
-       bound=_C08_BOUND + "methods: quick Newton-CG; thorough Newton-CG (all sets), trust-ncg, trust-krylov, trust-exact (none, one_sided); these ignore maxiter: one run + second fit")
+       bound=_C08_BOUND + "methods: quick Newton-CG; thorough Newton-CG (all sets), trust-ncg, trust-krylov, trust-exact (none, one_sided, zero_bound*); these ignore maxiter: one run + second fit")
 def fit_second_order(ctx):
     if ctx.tier == "quick":
         _fit_group(ctx, ["Newton-CG"], ["one_sided", "gauss"], [None])
     else:
         _fit_group(ctx, ["Newton-CG"], list(CONSTRAINT_SETS), [None])
-        _fit_group(ctx, ["trust-ncg", "trust-krylov", "trust-exact"], ["none", "one_sided"], [None])
+        _fit_group(ctx, ["trust-ncg", "trust-krylov", "trust-exact"], ["none", "one_sided"] + _ZERO_SETS, [None])
 
 
 @group(["C08"], "iface.fit/hessp", _FIT_FUNCS, env="tf", kind="B", tiers=("thorough",),
@@ -981,78 +1246,198 @@ def err_fit(ctx):
     cases = [("none", 2), ("tied", 2)] if quick else [("none", 2), ("tied", 2), ("gauss", 2), ("none", 3)]
     with L.scratch_dir():
         for cset, n_res in cases:
-            cons, pextra, start, bounds = CONSTRAINT_SETS[cset]
-            cfg = L.tiny_dict("default", n_res=n_res, constrains=cons, particle_extra=pextra)
-            config = L.build(ctx, cfg, seed=53)
-            data, phsp, bg = L.make_samples(config, 900, n_data=300, n_phsp=1000, n_bg=60, weights=None, phsp_weights=None)
-            with L.quiet():
-                fr = config.fit(data=[data], phsp=[phsp], bg=[bg], method="BFGS", print_init_nll=False)
-                names = list(config.vm.trainable_vars)
-                fcn = config.get_fcn([[data], [phsp], [bg], None], batch=65000)
-                keep.append(fcn)
-                x = np.array(fcn.vm.get_all_val(), dtype=float)
-                _, _, h = fcn.nll_grad_hessian(x)
-            h = np.asarray(h, dtype=float)
-            eig = np.linalg.eigvalsh(0.5 * (h + h.T))
-            wit0 = {"constraints": cset, "n_res": n_res, "sample_seed": 900, "fit_params": _num_params(fr.params), "names": names, "hessian": L.fl(h),
-                    "hessian_eigenvalues": L.fl(eig)}
-            agg.add("precondition/hessian_positive_definite", bool(eig[0] > 0), "harness precondition: Hessian at the fit point is positive definite", wit0)
-            if not eig[0] > 0:
-                continue
-            v_mine = np.linalg.inv(h)
-            sig_mine = np.sqrt(np.diag(v_mine))
-            wit0["expected_errors"] = dict(zip(names, L.fl(sig_mine)))
-            agg.add("precondition/hessian_condition", bool(eig[-1] / eig[0] < 1e9), "harness: Hessian condition number below 1e9 (1.1e-16 * cond <= 1e-7)", wit0)
-            # ---- parameter errors
-            for label, kw in (("default", {}), ("cal_hesse_error", {"method": "hesse"})):
-                res, exc = _try(lambda: config.get_params_error(fr, data=[data], phsp=[phsp], bg=[bg], **kw))
-                ctx.count(key=("errors", cset, n_res, label), sample={"case": cset, "path": label, "errors": res if exc is None else exc})
-                ok = exc is None and list(res) == names and L.close([res[k] for k in names], sig_mine, 1e-6, 0.0)
-                agg.add("hesse/" + label, ok, "get_params_error(fit_result, ...)[name] == sqrt(diag(inv(Hessian of the NLL)))[name] (rtol 1e-6: two "
-                        "evaluations of the same Hessian at different batch sizes, condition number <= 1e9 asserted)",
-                        dict(wit0, returned=res if exc is None else None, raised=exc, kwargs=kw))
-                ok_v = exc is None and config.inv_he is not None and L.close(np.asarray(config.inv_he, dtype=float), v_mine, 1e-5, 1e-6 * float(np.max(np.abs(v_mine))))
-                agg.add("hesse/covariance_" + label, ok_v, "config.inv_he == inverse of the Hessian", dict(wit0, raised=exc))
-            # ---- fit fractions
-            p0 = _num_params(config.get_params())
-
-            def fractions(shift_name=None, value=None, method="old"):
-                # only the shifted parameter is passed: a full dictionary would also list the tied partner (same variable) with its old value
-                pars = {} if shift_name is None else {shift_name: value}
+            with _case(ctx, agg, "hesse/default", "fit, Hessian and get_params_error succeed", {"constraints": cset, "n_res": n_res, "sample_seed": 900}):
+                cons, pextra, start, bounds = CONSTRAINT_SETS[cset]
+                cfg = L.tiny_dict("default", n_res=n_res, constrains=cons, particle_extra=pextra)
+                config = L.build(ctx, cfg, seed=53)
+                data, phsp, bg = L.make_samples(config, 900, n_data=300, n_phsp=1000, n_bg=60, weights=None, phsp_weights=None)
                 with L.quiet():
-                    out = config.cal_fitfractions(params=pars, mcdata=phsp, method=method)
-                    if method == "new":
-                        out = out.get_frac()
-                return {k: float(v) for k, v in out[0].items()}, {k: float(v) for k, v in out[1].items()}
-
-            for method in ("old", "new"):
-                res, exc = _try(lambda: fractions(method=method))
-                if exc is not None:
-                    agg.add("fitfraction/" + method, False, "cal_fitfractions returns fractions and errors", dict(wit0, raised=exc))
+                    fr = config.fit(data=[data], phsp=[phsp], bg=[bg], method="BFGS", print_init_nll=False)
+                    names = list(config.vm.trainable_vars)
+                    fcn = config.get_fcn([[data], [phsp], [bg], None], batch=65000)
+                    keep.append(fcn)
+                    x = np.array(fcn.vm.get_all_val(), dtype=float)
+                    _, _, h = fcn.nll_grad_hessian(x)
+                h = np.asarray(h, dtype=float)
+                eig = np.linalg.eigvalsh(0.5 * (h + h.T))
+                wit0 = {"constraints": cset, "n_res": n_res, "sample_seed": 900, "fit_params": _num_params(fr.params), "names": names, "hessian": L.fl(h),
+                        "hessian_eigenvalues": L.fl(eig)}
+                agg.add("precondition/hessian_positive_definite", bool(eig[0] > 0), "harness precondition: Hessian at the fit point is positive definite", wit0)
+                if not eig[0] > 0:
                     continue
-                frac0, err0 = res
-                keys = list(frac0)
-                # Jacobian of the reported fractions by finite differences (parameter by parameter)
-                jac = {k: np.zeros(len(names)) for k in keys}
-                for i, nm in enumerate(names):
-                    def f_i(val, nm=nm):
-                        fr_i, _ = fractions(nm, val, method=method)
-                        return np.array([fr_i[k] for k in keys])
+                v_mine = np.linalg.inv(h)
+                sig_mine = np.sqrt(np.diag(v_mine))
+                wit0["expected_errors"] = dict(zip(names, L.fl(sig_mine)))
+                agg.add("precondition/hessian_condition", bool(eig[-1] / eig[0] < 1e9), "harness: Hessian condition number below 1e9 (1.1e-16 * cond <= 1e-7)", wit0)
+                # ---- parameter errors
+                for label, kw in (("default", {}), ("cal_hesse_error", {"method": "hesse"})):
+                    res, exc = _try(lambda: config.get_params_error(fr, data=[data], phsp=[phsp], bg=[bg], **kw))
+                    ctx.count(key=("errors", cset, n_res, label), sample={"case": cset, "path": label, "errors": res if exc is None else exc})
+                    ok = exc is None and list(res) == names and L.close([res[k] for k in names], sig_mine, 1e-6, 0.0)
+                    agg.add("hesse/" + label, ok, "get_params_error(fit_result, ...)[name] == sqrt(diag(inv(Hessian of the NLL)))[name] (rtol 1e-6: two "
+                            "evaluations of the same Hessian at different batch sizes, condition number <= 1e9 asserted)",
+                            dict(wit0, returned=res if exc is None else None, raised=exc, kwargs=kw))
+                    ok_v = exc is None and config.inv_he is not None and L.close(np.asarray(config.inv_he, dtype=float), v_mine, 1e-5, 1e-6 * float(np.max(np.abs(v_mine))))
+                    agg.add("hesse/covariance_" + label, ok_v, "config.inv_he == inverse of the Hessian", dict(wit0, raised=exc))
+                # ---- fit fractions
+                p0 = _num_params(config.get_params())
 
-                    d = _richardson_scalar(f_i, p0[nm])
-                    for kk, k in enumerate(keys):
-                        jac[k][i] = d[kk]
-                after = _num_params(config.get_params())
-                agg.add("fitfraction/parameters_restored", after == p0, "cal_fitfractions(params=...) leaves the model parameters as they were", dict(wit0, before=p0, after=after))
-                for k in keys:
-                    expect = float(np.sqrt(max(jac[k] @ v_mine @ jac[k], 0.0)))
-                    got = err0.get(k)
-                    ctx.count(key=("frac", cset, n_res, method, str(k)), sample={"fraction": str(k), "method": method, "value": frac0[k], "error": got, "expected": expect})
-                    # rtol 2e-3: g from Richardson differences is accurate to ~1e-8 and V is the matrix checked above, so the achievable agreement is ~1e-6;
-                    # 2e-3 (+ 1e-9 for fractions whose error vanishes) is far below the effect of a missing quotient-rule or interference term
-                    agg.add("fitfraction/" + method, got is not None and L.close(got, expect, 2e-3, 1e-9),
-                            "cal_fitfractions error[name] == sqrt(g V g), g = d(reported fraction)/d(parameters) by finite differences, V = inverse Hessian",
-                            dict(wit0, fraction=str(k), method=method, value=frac0[k], returned_error=got, expected_error=expect, fd_gradient=L.fl(jac[k])))
+                def fractions(shift_name=None, value=None, method="old"):
+                    # only the shifted parameter is passed: a full dictionary would also list the tied partner (same variable) with its old value
+                    pars = {} if shift_name is None else {shift_name: value}
+                    with L.quiet():
+                        out = config.cal_fitfractions(params=pars, mcdata=phsp, method=method)
+                        if method == "new":
+                            out = out.get_frac()
+                    return {k: float(v) for k, v in out[0].items()}, {k: float(v) for k, v in out[1].items()}
+
+                for method in ("old", "new"):
+                    res, exc = _try(lambda: fractions(method=method))
+                    if exc is not None:
+                        agg.add("fitfraction/" + method, False, "cal_fitfractions returns fractions and errors", dict(wit0, raised=exc))
+                        continue
+                    frac0, err0 = res
+                    keys = list(frac0)
+                    # Jacobian of the reported fractions by finite differences (parameter by parameter)
+                    jac = {k: np.zeros(len(names)) for k in keys}
+                    for i, nm in enumerate(names):
+                        def f_i(val, nm=nm):
+                            fr_i, _ = fractions(nm, val, method=method)
+                            return np.array([fr_i[k] for k in keys])
+
+                        d = _richardson_scalar(f_i, p0[nm])
+                        for kk, k in enumerate(keys):
+                            jac[k][i] = d[kk]
+                    after = _num_params(config.get_params())
+                    agg.add("fitfraction/parameters_restored", after == p0, "cal_fitfractions(params=...) leaves the model parameters as they were", dict(wit0, before=p0, after=after))
+                    for k in keys:
+                        expect = float(np.sqrt(max(jac[k] @ v_mine @ jac[k], 0.0)))
+                        got = err0.get(k)
+                        ctx.count(key=("frac", cset, n_res, method, str(k)), sample={"fraction": str(k), "method": method, "value": frac0[k], "error": got, "expected": expect})
+                        # rtol 2e-3: g from Richardson differences is accurate to ~1e-8 and V is the matrix checked above, so the achievable agreement is ~1e-6;
+                        # 2e-3 (+ 1e-9 for fractions whose error vanishes) is far below the effect of a missing quotient-rule or interference term
+                        agg.add("fitfraction/" + method, got is not None and L.close(got, expect, 2e-3, 1e-9),
+                                "cal_fitfractions error[name] == sqrt(g V g), g = d(reported fraction)/d(parameters) by finite differences, V = inverse Hessian",
+                                dict(wit0, fraction=str(k), method=method, value=frac0[k], returned_error=got, expected_error=expect, fd_gradient=L.fl(jac[k])))
+    agg.emit(ctx)
+
+
+# ---- ill-conditioned but positive-definite Hessians
+#
+# Tolerance.  The statement is exact: sigma = sqrt(diag(H^-1)).  A backward-stable inversion of a float64 matrix of condition number kappa
+# returns H^-1 with relative error <= c(n) * u * kappa (u = 1.1e-16; c(n) a modest function of the dimension, n <= 12 here).  The accepted
+# relative error is   rtol(kappa) = max(1e-6, 10 * 1.1e-16 * kappa)   - the rule of iface.err/fit_errors (1e-6 up to kappa = 1e9) continued
+# linearly above it; for kappa = 1e12 it is 1.1e-3.  A truncated or regularised inverse (pseudo-inverse cut-off, added diagonal) changes the
+# weakly constrained errors at relative O(1), three orders of magnitude above the loosest tolerance used.  The reference is the inverse of the
+# float64 matrix in 60-digit arithmetic (mpmath), not numpy.linalg.
+_U = 1.1e-16
+
+
+def _rtol_kappa(kappa):
+    return max(1e-6, 10.0 * _U * float(kappa))
+
+
+def _ill_hessians(rs, n, quick):
+    """seeded family of symmetric positive-definite Hessians of dimension n: [(label, H)]"""
+    out = []
+    # (a) random orthogonal basis x prescribed log-spaced spectrum: every parameter error is dominated by the smallest eigenvalues
+    for kappa in (1e2, 1e6, 3e8, 1e9, 1e10, 1e12) if quick else (1e2, 1e4, 1e6, 1e8, 3e8, 1e9, 3e9, 1e10, 1e11, 1e12, 1e13):
+        for rep in range(1 if quick else 3):
+            out.append(("spectrum/kappa=%g/%d" % (kappa, rep), L.spectrum_hessian(rs, np.logspace(0.0, np.log10(kappa), n) * rs.uniform(0.5, 2.0))))
+    # (b) parameters known to very different precisions: one 'mass' known to 1e-5 (2e-5), one 'width' to 3e-4, couplings to 0.03 .. 10
+    tails = [[1e-5, 3e-4], [2e-5, 4e-4], [1e-3, 1e-2], [0.02, 0.3]]
+    for ti, head in enumerate(tails if not quick else tails[:3]):
+        sig = np.array(head + list(np.exp(rs.uniform(np.log(0.03), np.log(10.0), n - 2))))
+        sig[-1] = 10.0
+        out.append(("scaled/sigma_min=%g/correlated" % head[0], L.scaled_hessian(rs, sig)))
+        if ti == 0:
+            out.append(("scaled/sigma_min=%g/diagonal" % head[0], np.diag(1.0 / sig**2)))
+    return out
+
+
+@group(["C09"], "iface.err/ill_conditioned", ["applications:force_pos_def", "applications:cal_hesse_error", "applications:cal_hesse_correct",
+                                               "config_loader.config_loader:ConfigLoader.get_params_error"], env="tf", kind="B",
+       bound="seeded symmetric positive-definite Hessians: random orthogonal basis x log-spaced spectrum with condition number in {1e2, 1e6, 3e8, 1e9, "
+             "1e10, 1e12} (thorough 11 values up to 1e13, 3 bases each) and S^-1 C^-1 S^-1 with per-parameter precisions S from 1e-5 (a mass) to 10 "
+             "(a weak coupling), C well conditioned, correlated and diagonal; dimensions 4 and 8 (thorough + 6, 12).  Observed through "
+             "applications.force_pos_def(H) (all dimensions) and, for dimension 8 (6), through applications.cal_hesse_error and "
+             "ConfigLoader.get_params_error (default / method='hesse') on the tiny model's ConfigLoader whose likelihood is replaced by the exactly "
+             "quadratic NLL 1/2 (x-x0)^T H (x-x0) over its 8 (6) free parameters; reference: 60-digit inverse; rtol max(1e-6, 10*1.1e-16*cond)",
+       assumes=["the quadratic stand-in FCN provides what the error routines read from a likelihood object (vm, get_params, __call__, nll_grad_hessian "
+                "returning tensors); its Hessian is exact, so the clause tests the inversion / positive-definite repair, not the derivative code"])
+def err_ill_conditioned(ctx):
+    import tensorflow as tf
+
+    app = ctx.mod("applications")
+    agg = Agg()
+    quick = ctx.tier == "quick"
+    rs = np.random.RandomState(ctx.seed + 9100)
+    clause = ("positive-definite Hessian H (condition number up to 1e12-1e13): %s == sqrt(diag(H^-1)) / H^-1 (60-digit reference), "
+              "rtol max(1e-6, 10*1.1e-16*cond(H))")
+
+    def reference(h):
+        eig = np.linalg.eigvalsh(h)
+        v_ref = L.exact_inverse(h)
+        return eig, v_ref, np.sqrt(np.diag(v_ref))
+
+    def cov_close(v, v_ref, rtol):
+        # entry (i, j) on the scale sigma_i sigma_j (entries of weakly correlated pairs are not meaningful relative to themselves)
+        scale = np.sqrt(np.outer(np.diag(v_ref), np.diag(v_ref)))
+        v = np.asarray(v, dtype=float)
+        return bool(v.shape == v_ref.shape and np.all(np.isfinite(v)) and np.all(np.abs(v - v_ref) <= rtol * scale))
+
+    # ---- (1) force_pos_def on its own, all dimensions
+    for n in (4, 8) if quick else (4, 6, 8, 12):
+        for label, h in _ill_hessians(rs, n, quick):
+            eig, v_ref, sig_ref = reference(h)
+            kappa = float(eig[-1] / eig[0])
+            rtol = _rtol_kappa(kappa)
+            wit = {"family": label, "n": n, "hessian": L.fl(h), "eigenvalues": L.fl(eig), "condition_number": kappa, "rtol": rtol, "expected_errors": L.fl(sig_ref)}
+            agg.add("precondition/positive_definite", bool(eig[0] > 0) and L.close(h, h.T, 0.0, 0.0), "harness: generated Hessian is symmetric positive definite", wit)
+            res, exc = _try(lambda: np.asarray(app.force_pos_def(h.copy()), dtype=float))
+            got = None if exc is not None else np.sqrt(np.abs(np.diag(res)))
+            ctx.count(key=("force_pos_def", n, label), sample={"family": label, "n": n, "condition_number": kappa,
+                                                               "max_rel_error": L.worst(got, sig_ref) if got is not None else exc, "rtol": rtol})
+            agg.add("force_pos_def/errors", exc is None and L.close(got, sig_ref, rtol, 0.0), clause % "sqrt(diag(force_pos_def(H)))",
+                    dict(wit, returned_errors=L.fl(got) if got is not None else None, raised=exc))
+            agg.add("force_pos_def/covariance", exc is None and cov_close(res, v_ref, rtol), clause % "force_pos_def(H)",
+                    dict(wit, returned=L.fl(res) if exc is None else None, raised=exc))
+    # ---- (2) through the likelihood-level entry points, on a ConfigLoader whose likelihood is exactly quadratic
+    with L.scratch_dir():
+        for cset in ("none",) if quick else ("none", "fixed"):
+            cons, pextra, _start, _bounds = CONSTRAINT_SETS[cset]
+            config = L.build(ctx, L.tiny_dict("default", constrains=cons, particle_extra=pextra), seed=59)
+            names = list(config.vm.trainable_vars)
+            n = len(names)
+            mass_first = [names.index("R_BC_mass"), names.index("R_BC_width")] + [i for i, k in enumerate(names) if k not in ("R_BC_mass", "R_BC_width")]
+            for label, h0 in _ill_hessians(rs, n, quick):
+                # the most precisely known direction of the scaled family is the mass, the next one the width
+                perm = np.argsort(mass_first) if label.startswith("scaled") else np.arange(n)
+                h = h0[np.ix_(perm, perm)]
+                eig, v_ref, sig_ref = reference(h)
+                kappa = float(eig[-1] / eig[0])
+                rtol = _rtol_kappa(kappa)
+                qf = L.QuadraticFCN(config.vm, h, tf)
+                config.get_fcn = lambda *a, _qf=qf, **k: _qf  # instance attribute: this ConfigLoader's likelihood is the quadratic form
+                wit = {"family": label, "constraints": cset, "names": names, "hessian": L.fl(h), "eigenvalues": L.fl(eig), "condition_number": kappa, "rtol": rtol,
+                       "expected_errors": dict(zip(names, L.fl(sig_ref)))}
+                agg.add("precondition/positive_definite", bool(eig[0] > 0), "harness: generated Hessian is symmetric positive definite", wit)
+                res, exc = _try(lambda: app.cal_hesse_error(qf, {}, check_posi_def=True, save_npy=False))
+                ok = exc is None and L.close(res[0], sig_ref, rtol, 0.0) and cov_close(res[1], v_ref, rtol)
+                ctx.count(key=("cal_hesse_error", cset, label), sample={"family": label, "path": "cal_hesse_error", "condition_number": kappa,
+                                                                        "max_rel_error": L.worst(res[0], sig_ref) if exc is None else exc, "rtol": rtol})
+                agg.add("cal_hesse_error/errors", ok, clause % "cal_hesse_error(fcn)[0] / [1]", dict(wit, returned_errors=L.fl(res[0]) if exc is None else None, raised=exc))
+                for plabel, kw in (("default", {}), ("hesse", {"method": "hesse"})):
+                    config.inv_he = None
+                    res, exc = _try(lambda: config.get_params_error(params={}, data=[None], phsp=[None], **kw))
+                    got = None if exc is not None else [res.get(k) for k in names]
+                    ok = exc is None and list(res) == names and L.close(got, sig_ref, rtol, 0.0) and config.inv_he is not None and cov_close(config.inv_he, v_ref, rtol)
+                    ctx.count(key=("get_params_error", cset, label, plabel), sample={"family": label, "path": "get_params_error/" + plabel, "condition_number": kappa,
+                                                                                     "max_rel_error": L.worst(got, sig_ref) if exc is None else exc, "rtol": rtol})
+                    agg.add("get_params_error/" + plabel, ok, clause % ("ConfigLoader.get_params_error(%s)[name] / config.inv_he" % ("method='hesse'" if kw else "")),
+                            dict(wit, returned=res if exc is None else None, raised=exc, kwargs=kw))
+                agg.add("precondition/quadratic_fcn_used", qf.n_hessian_calls >= 3, "harness: the three error paths read the Hessian of the quadratic stand-in",
+                        {"family": label, "hessian_calls": qf.n_hessian_calls})
     agg.emit(ctx)
 
 
